@@ -8,10 +8,9 @@ import re._parser as sre_parse  # regex ASTs (stdlib)
 
 from sa import source
 from sa.cfg import cfg_of, guards
+from sa.classes import is_logging_stmt
 from sa.minieval import CannotEval, ev
 from sa.source import AnchorMissing, dotted, is_self_attr, last_attr, local_defs, params_of, short, u, walk_body
-from sa.sym import UnknownAtom, atoms_of
-from sa.tables import Outcome, Unsupported, decide
 
 _R = "esrally/driver/runner.py"
 
@@ -101,6 +100,16 @@ def xev(e: ast.AST, env: dict):
                     s_, p_ = ev(n.func.value, env), ev(n.args[0], env)
                     if isinstance(s_, str) and isinstance(p_, str):
                         return ast.Constant(value=s_.removeprefix(p_))
+                elif isinstance(n, ast.Call) and isinstance(n.func, ast.Name) and n.func.id in ("frozenset", "set", "list", "tuple", "dict") and not n.args and not n.keywords:
+                    return ast.Constant(value={"frozenset": frozenset, "set": set, "list": list, "tuple": tuple, "dict": dict}[n.func.id]())  # the empty container
+                elif isinstance(n, ast.Call) and isinstance(n.func, ast.Name) and n.func.id in ("enumerate", "zip", "range") and n.args and not n.keywords:
+                    vals = [ev(a, env) for a in n.args]
+                    if n.func.id == "range" and all(isinstance(x, int) and not isinstance(x, bool) for x in vals) and len(vals) <= 3:
+                        return ast.Constant(value=list(range(*vals)))
+                    if n.func.id == "enumerate" and isinstance(vals[0], (list, tuple, str)) and (len(vals) == 1 or (len(vals) == 2 and type(vals[1]) is int)):
+                        return ast.Constant(value=[list(x) for x in enumerate(*vals)])
+                    if n.func.id == "zip" and all(isinstance(x, (list, tuple, str)) for x in vals):
+                        return ast.Constant(value=[list(x) for x in zip(*vals)])
                 elif isinstance(n, ast.Call) and isinstance(n.func, ast.Name) and n.func.id in ("str", "repr") and len(n.args) == 1 and not n.keywords:
                     v_ = ev(n.args[0], env)
                     if v_ is None or isinstance(v_, (bool, int, float, str)):
@@ -120,15 +129,529 @@ def xev(e: ast.AST, env: dict):
         raise CannotEval(f"{u(e)[:60]}: {x}")
 
 
+# ---- extracted helpers are analysed together with their callers ---------------------------------------------------------------------------------------------------
+
+def _is_noise(s) -> bool:
+    """doc strings, `pass` and logging statements: no effect on any value the rules look at."""
+    return isinstance(s, ast.Pass) or (isinstance(s, ast.Expr) and isinstance(s.value, ast.Constant)) or is_logging_stmt(s)
+
+
+def _subst(expr, mapping):
+    """fresh copy of expr with every load of a name in `mapping` replaced by a fresh copy of the mapped expression. ONE pass: what is substituted is not substituted again
+    (a later re-binding of an operand must not change an earlier value). Refuses (CannotEval) when a comprehension / lambda inside expr binds one of the names involved."""
+    inner = {t.id for n in ast.walk(expr) if isinstance(n, ast.comprehension) for t in ast.walk(n.target) if isinstance(t, ast.Name)} | \
+        {a.arg for n in ast.walk(expr) if isinstance(n, ast.Lambda) for a in n.args.args}
+    if inner and (inner & set(mapping) or any(inner & loads_of(v) for v in mapping.values())):
+        raise CannotEval(f"name bound inside `{short(expr, 40)}` clashes with a substituted name")
+
+    class S(ast.NodeTransformer):
+        def visit_Name(self, n):
+            if isinstance(n.ctx, ast.Load) and n.id in mapping:
+                return source.clone(mapping[n.id])
+            return n
+
+    return S().visit(source.clone(expr))
+
+
+def _signature(fn):
+    """(parameter names without self / cls, {parameter: default expression})"""
+    a = fn.args
+    pos = [x.arg for x in a.posonlyargs + a.args]
+    defaults = dict(zip(pos[len(pos) - len(a.defaults):], a.defaults))
+    defaults.update({x.arg: d for x, d in zip(a.kwonlyargs, a.kw_defaults) if d is not None})
+    if pos and pos[0] in ("self", "cls"):
+        pos = pos[1:]
+    return pos + [x.arg for x in a.kwonlyargs], defaults
+
+
+def helper_expr(fn):
+    """The value a small pure helper returns, as ONE expression over its parameters: single-target assignments are substituted (in order), if / else and guard clauses (N8 made
+    them if / else) become conditional expressions. Anything else (loops, try, calls as statements, in-place updates) -> CannotEval: such a helper is not a plain predicate / projection."""
+    if not isinstance(fn, ast.FunctionDef) or fn.args.vararg or fn.args.kwarg or any(isinstance(x, (ast.Yield, ast.YieldFrom, ast.Await)) for x in ast.walk(fn)) \
+            or any(dotted(d) not in ("staticmethod", "classmethod") for d in fn.decorator_list):
+        raise CannotEval(f"{getattr(fn, 'name', '?')} is not a plain function")
+
+    def block(stmts, sub, depth):
+        for i, s in enumerate(stmts):
+            if _is_noise(s):
+                continue
+            if isinstance(s, ast.Assign) and len(s.targets) == 1 and isinstance(s.targets[0], ast.Name):
+                sub = dict(sub)
+                sub[s.targets[0].id] = _subst(s.value, sub)
+            elif isinstance(s, ast.Return):
+                return _subst(s.value, sub) if s.value is not None else ast.Constant(value=None)
+            elif isinstance(s, ast.If) and depth < 6:
+                rest = list(stmts[i + 1:])
+                return ast.IfExp(test=_subst(s.test, sub), body=block(list(s.body) + rest, sub, depth + 1), orelse=block(list(s.orelse) + rest, sub, depth + 1))
+            else:
+                raise CannotEval(f"statement `{short(s, 50)}` of helper {fn.name}")
+        return ast.Constant(value=None)
+
+    return block(list(fn.body), {}, 0)
+
+
+class Expander:
+    """Calls of small pure helpers - methods of the same class (through self / cls / the class name), functions of the module, functions nested in the analysed function - are replaced
+    by the expression the helper returns, arguments substituted for parameters (bound by position AND keyword, defaults filled in). An extracted predicate is thereby analysed
+    exactly like the inline expression it came from; helpers that are not plain expressions stay calls (the evaluation then says 'cannot evaluate', never a verdict)."""
+
+    def __init__(self, module, cls=None, nested=()):
+        self.module, self.cls = module, cls
+        self.methods = module.methods(cls) if cls is not None else {}
+        self.nested = {f.name: f for f in nested}
+        self._cache: dict = {}
+        self._hx: dict = {}
+
+    def target(self, call):
+        f = call.func
+        if isinstance(f, ast.Attribute) and isinstance(f.value, ast.Name) and f.attr in self.methods and f.value.id in ("self", "cls", getattr(self.cls, "name", None)):
+            return self.methods[f.attr]
+        if isinstance(f, ast.Name):
+            if f.id in self.nested:
+                return self.nested[f.id]
+            t = self.module.index().get(f.id)
+            if isinstance(t, ast.FunctionDef):
+                return t
+        return None
+
+    def helper(self, fn):
+        if id(fn) not in self._hx:
+            try:
+                self._hx[id(fn)] = helper_expr(fn)
+            except CannotEval as e:
+                self._hx[id(fn)] = e
+        r = self._hx[id(fn)]
+        if isinstance(r, CannotEval):
+            raise r
+        return r
+
+    def __call__(self, expr):
+        if getattr(expr, "_parent", None) is None:  # a synthesised node: not cached (its id may be reused)
+            return self._expand(expr, 0)
+        k = id(expr)
+        if k not in self._cache:
+            self._cache[k] = (expr, self._expand(expr, 0))
+        return self._cache[k][1]
+
+    def _expand(self, expr, depth):
+        if not any(isinstance(n, ast.Call) and self.target(n) is not None for n in ast.walk(expr)):
+            return expr
+        ex = self
+
+        class T(ast.NodeTransformer):
+            def visit_Call(self, c):
+                self.generic_visit(c)
+                fn = ex.target(c)
+                if fn is None or depth > 4 or any(isinstance(a, ast.Starred) for a in c.args) or any(k.arg is None for k in c.keywords):
+                    return c
+                try:
+                    body = ex.helper(fn)
+                    names, defaults = _signature(fn)
+                    bound = source.bind_args(c, fn)
+                    if len(c.args) > len(names) or any(k.arg not in names for k in c.keywords):
+                        return c
+                    mapping = {}
+                    for p in names:
+                        if p in bound:
+                            mapping[p] = bound[p]
+                        elif p in defaults:
+                            mapping[p] = defaults[p]
+                        else:
+                            return c
+                    return ex._expand(_subst(body, mapping), depth + 1)
+                except CannotEval:
+                    return c
+
+        return T().visit(source.clone(expr))
+
+
+# ---- concrete interpretation of extracted statements on representative values ------------------------------------------------------------------------------------
+
+class _Opaque:
+    """a value the interpretation knows nothing about (the result of something it does not model): every USE of it raises CannotEval, passing it on does not."""
+
+    def __init__(self, what):
+        self.what = what
+
+    def _no(self, *a, **k):
+        raise CannotEval(f"the uninterpreted value `{self.what}` is used")
+
+    __bool__ = __len__ = __iter__ = __contains__ = __getitem__ = __setitem__ = __delitem__ = __eq__ = __ne__ = __lt__ = __gt__ = __le__ = __ge__ = __hash__ = _no
+    __add__ = __radd__ = __sub__ = __rsub__ = __mul__ = __rmul__ = __truediv__ = __rtruediv__ = __mod__ = __rmod__ = __neg__ = __int__ = __float__ = __index__ = _no
+
+    def __repr__(self):
+        return f"<uninterpreted {self.what}>"
+
+
+_MUTATORS = ("update", "add", "append", "extend", "pop", "setdefault", "clear", "discard", "remove", "insert", "popitem", "sort", "reverse")
+_JUMPS = (ast.Return, ast.Raise, ast.Break, ast.Continue)
+
+
+class Machine:
+    """Interprets EXTRACTED statements (assignments, if / for / while / try, in-place updates of dicts / lists / sets, calls of helpers of the analysed code) on representative
+    values; expressions are evaluated by minieval (ev / xev) after helper calls were expanded. Nothing of the repository is imported or run.
+      strict:   whatever cannot be interpreted raises CannotEval (the rule reports 'not recognised').
+      tolerant: a statement that cannot be interpreted makes everything it may bind or update an _Opaque value and the run goes on; a later DECISION that needs such a value
+                raises CannotEval. (If the statement may jump - return / raise / break / continue inside - the run cannot go on soundly: CannotEval.)
+    loop_feed: {id(For node): values} - that loop iterates over the given values instead of its own iterable (an event stream in place of the ijson parser); every iteration
+               is recorded in .trace ({'item', 'stores': [(container, key, value)], 'broke'}).
+    on_call:   hook (call node, env, machine) -> value | NotImplemented for calls the rule supplies the result of (the selective parse, json.loads of the probe response)."""
+
+    def __init__(self, expand=None, strict=True, loop_feed=None, on_call=None, budget=40000):
+        self.expand = expand if expand is not None else (lambda e: e)
+        self.strict, self.loop_feed, self.on_call, self.budget = strict, loop_feed or {}, on_call, budget
+        self.trace: list = []
+        self.cur = None
+        self.depth = 0
+
+    # -- expressions ------------------------------------------------------------------------------------
+    def val(self, e, env):
+        e = self.expand(e)
+        try:
+            return ev(e, env)
+        except (CannotEval, TypeError, StopIteration):
+            pass
+        try:
+            return xev(e, env)
+        except StopIteration:
+            raise CannotEval(f"{short(e, 50)}: next() of an empty iterator")
+
+    def value_of(self, e, env):
+        """value of the right-hand side of a statement: the hook first, then evaluation, then - for a helper that is not a plain expression - its interpretation."""
+        c = e.value if isinstance(e, ast.Await) else e
+        if isinstance(c, ast.Call) and self.on_call is not None:
+            r = self.on_call(c, env, self)
+            if r is not NotImplemented:
+                return r
+        if isinstance(e, ast.Dict) and not self.strict and None not in e.keys:
+            v = {}
+            for k_, x_ in zip(e.keys, e.values):  # member by member: one uninterpreted member does not hide the others
+                try:
+                    v[self.val(k_, env)] = self.value_of(x_, env)
+                except CannotEval:
+                    v[self.val(k_, env)] = _Opaque(short(x_, 40))
+            return v
+        try:
+            return self.val(e, env)
+        except CannotEval:
+            fn = self.expand.target(c) if isinstance(c, ast.Call) and hasattr(self.expand, "target") else None
+            if fn is None:
+                raise
+            return self.call(fn, c, env)
+
+    def call(self, fn, c, env):
+        """interprets the body of a helper of the analysed code on the argument VALUES (containers are shared with the caller, as in Python)."""
+        if self.depth > 5 or any(isinstance(a, ast.Starred) for a in c.args) or any(k.arg is None for k in c.keywords) or not isinstance(fn, ast.FunctionDef) \
+                or fn.args.vararg or fn.args.kwarg or any(isinstance(x, (ast.Yield, ast.YieldFrom, ast.Await)) for x in ast.walk(fn)):
+            raise CannotEval(f"call {short(c, 50)}")
+        names, defaults = _signature(fn)
+        bound = source.bind_args(c, fn)
+        if len(c.args) > len(names) or any(k.arg not in names for k in c.keywords):
+            raise CannotEval(f"call {short(c, 50)}: arguments do not fit {fn.name}")
+        # a nested function reads the variables of the function around it
+        env2 = dict(env) if any(isinstance(a, (ast.FunctionDef, ast.AsyncFunctionDef)) for a in source.ancestors(fn)) else {}
+        for p in names:
+            src_, where = (bound[p], env) if p in bound else ((defaults[p], {}) if p in defaults else (None, None))
+            if src_ is None:
+                raise CannotEval(f"call {short(c, 50)}: no argument for {p}")
+            try:
+                env2[p] = self.val(src_, where)
+            except CannotEval:
+                if self.strict:
+                    raise
+                env2[p] = _Opaque(short(src_, 40))
+        self.depth += 1
+        try:
+            sig = self.run(fn.body, env2)
+        finally:
+            self.depth -= 1
+        if sig is None:
+            return None
+        if sig[0] == "return":
+            return sig[1]
+        raise CannotEval(f"helper {fn.name} leaves by {sig[0]}")
+
+    # -- statements ---------------------------------------------------------------------------------------
+    def run(self, stmts, env):
+        for s in stmts:
+            sig = self.stmt(s, env)
+            if sig is not None:
+                return sig
+        return None
+
+    def give_up(self, s, env, why):
+        """tolerant mode: the statement is not interpreted - what it may bind or update in place is unknown from here on."""
+        if self.strict or any(isinstance(x, _JUMPS) for x in ast.walk(s)):
+            raise CannotEval(f"{why} (`{short(s, 50)}` at line {getattr(s, 'lineno', '?')})")
+        for n in ast.walk(s):
+            nm = None
+            if isinstance(n, ast.Name) and isinstance(n.ctx, (ast.Store, ast.Del)):
+                nm = n.id
+            elif isinstance(n, (ast.Subscript, ast.Attribute)) and isinstance(n.ctx, (ast.Store, ast.Del)):
+                nm = root_name(n)
+            elif isinstance(n, ast.Call) and isinstance(n.func, ast.Attribute) and n.func.attr in _MUTATORS:
+                nm = root_name(n.func.value)
+            elif isinstance(n, ast.Call):
+                # an uninterpreted call may update the containers handed to it (and the one it is a method of)
+                for a in list(n.args) + [k.value for k in n.keywords] + ([n.func.value] if isinstance(n.func, ast.Attribute) else []):
+                    if isinstance(env.get(root_name(a)), (dict, list, set)):
+                        env[root_name(a)] = _Opaque(root_name(a))
+            if nm is not None and nm != "self":
+                env[nm] = _Opaque(nm)
+        return None
+
+    def bind(self, t, v, env, s):
+        if isinstance(t, ast.Name):
+            env[t.id] = v
+        elif isinstance(t, (ast.Tuple, ast.List)) and not any(isinstance(x, ast.Starred) for x in t.elts):
+            if isinstance(v, _Opaque) and not self.strict:
+                for x in t.elts:
+                    self.bind(x, _Opaque(v.what), env, s)
+                return
+            if not isinstance(v, (list, tuple)) or len(v) != len(t.elts):
+                raise CannotEval(f"unpacking `{short(s, 50)}`")
+            for x, xv in zip(t.elts, v):
+                self.bind(x, xv, env, s)
+        elif isinstance(t, ast.Subscript):
+            box, key_ = self.val(t.value, env), self.val(t.slice, env)
+            if not isinstance(box, (dict, list)):
+                raise CannotEval(f"in-place update `{short(s, 50)}`")
+            try:
+                box[key_] = v
+            except (TypeError, IndexError) as x:
+                raise CannotEval(f"`{short(s, 50)}`: {type(x).__name__}")
+            if self.cur is not None:
+                self.cur["stores"].append((box, key_, v))
+        else:
+            raise CannotEval(f"target of `{short(s, 50)}`")
+
+    def stmt(self, s, env):
+        self.budget -= 1
+        if self.budget < 0:
+            raise CannotEval("interpretation budget exhausted")
+        if _is_noise(s) or isinstance(s, (ast.Import, ast.ImportFrom, ast.Assert)):
+            return None
+        if isinstance(s, ast.FunctionDef):
+            if hasattr(self.expand, "nested"):
+                self.expand.nested.setdefault(s.name, s)
+            return None
+        if isinstance(s, ast.Return):
+            if s.value is None:
+                return ("return", None)
+            try:
+                return ("return", self.value_of(s.value, env))
+            except CannotEval:
+                if self.strict:
+                    raise
+                return ("return", _Opaque(short(s.value, 40)))
+        if isinstance(s, ast.Raise):
+            return ("raise", s)
+        if isinstance(s, ast.Break):
+            return ("break", None)
+        if isinstance(s, ast.Continue):
+            return ("continue", None)
+        if isinstance(s, ast.Expr):
+            return self.expr_stmt(s, env)
+        if isinstance(s, ast.Assign):
+            try:
+                v = self.value_of(s.value, env)
+            except CannotEval:
+                if self.strict and not all(isinstance(t, ast.Name) for t in s.targets):
+                    raise
+                v = _Opaque(short(s.value, 40))  # e.g. `parser = ijson.parse(text)`: harmless unless the value is used
+            try:
+                for t in s.targets:
+                    self.bind(t, v, env, s)
+            except CannotEval as e:
+                return self.give_up(s, env, str(e))
+            return None
+        if isinstance(s, ast.AugAssign):
+            try:
+                v = self.val(ast.BinOp(left=source.clone(s.target), op=s.op, right=s.value), env)
+                self.bind(s.target, v, env, s)
+            except CannotEval as e:
+                return self.give_up(s, env, str(e))
+            return None
+        if isinstance(s, ast.If):
+            try:
+                c = bool(self.val(s.test, env))
+            except CannotEval as e:
+                return self.give_up(s, env, str(e))
+            return self.run(s.body if c else s.orelse, env)
+        if isinstance(s, ast.For):
+            fed = id(s) in self.loop_feed
+            try:
+                items = self.loop_feed[id(s)] if fed else self.val(s.iter, env)
+                if not isinstance(items, (list, tuple, set, frozenset, dict, range, str)):
+                    raise CannotEval(f"iterable of `{short(s, 50)}`")
+                items = list(items)
+            except CannotEval as e:
+                return self.give_up(s, env, str(e))
+            broke = False
+            for item in items:
+                prev = self.cur
+                if fed:
+                    self.cur = {"item": item, "stores": [], "broke": False}
+                    self.trace.append(self.cur)
+                self.bind(s.target, item, env, s)
+                try:
+                    sig = self.run(s.body, env)
+                finally:
+                    rec, self.cur = self.cur, prev
+                if sig is not None and sig[0] == "break":
+                    if fed:
+                        rec["broke"] = True
+                    broke = True
+                    break
+                if sig is not None and sig[0] != "continue":
+                    return sig
+            return None if broke else self.run(s.orelse, env)
+        if isinstance(s, ast.While):
+            while True:
+                self.budget -= 1
+                if self.budget < 0:
+                    raise CannotEval("interpretation budget exhausted")
+                try:
+                    c = bool(self.val(s.test, env))
+                except CannotEval as e:
+                    return self.give_up(s, env, str(e))
+                if not c:
+                    return self.run(s.orelse, env)
+                sig = self.run(s.body, env)
+                if sig is not None and sig[0] == "break":
+                    return None
+                if sig is not None and sig[0] != "continue":
+                    return sig
+        if isinstance(s, ast.Try):
+            # the interpreted run raises nothing: body, else, finally
+            sig = self.run(s.body, env)
+            if sig is None:
+                sig = self.run(s.orelse, env)
+            fin = self.run(s.finalbody, env)
+            return fin if fin is not None else sig
+        if isinstance(s, ast.Delete):
+            try:
+                for t in s.targets:
+                    if isinstance(t, ast.Name):
+                        env.pop(t.id, None)
+                    elif isinstance(t, ast.Subscript):
+                        del self.val(t.value, env)[self.val(t.slice, env)]
+                    else:
+                        raise CannotEval(f"`{short(s, 50)}`")
+            except (KeyError, IndexError, TypeError) as x:
+                raise CannotEval(f"`{short(s, 50)}`: {type(x).__name__}")
+            return None
+        return self.give_up(s, env, f"statement {type(s).__name__}")
+
+    def expr_stmt(self, s, env):
+        c = s.value.value if isinstance(s.value, ast.Await) else s.value
+        if not isinstance(c, ast.Call):
+            return None
+        if self.on_call is not None and self.on_call(c, env, self) is not NotImplemented:
+            return None
+        f = c.func
+        if isinstance(f, ast.Attribute) and f.attr in _MUTATORS:
+            recv = None
+            try:
+                recv = self.val(f.value, env)
+            except CannotEval:
+                pass  # e.g. a container reached through self: the generic rule below decides
+            if isinstance(recv, (dict, list, set)):
+                try:
+                    getattr(recv, f.attr)(*[self.val(a, env) for a in c.args], **{k.arg: self.val(k.value, env) for k in c.keywords if k.arg})
+                except (KeyError, IndexError, TypeError, ValueError, AttributeError) as x:
+                    return self.give_up(s, env, f"{type(x).__name__}")
+                except CannotEval as e:
+                    return self.give_up(s, env, str(e))
+                return None
+            if isinstance(recv, _Opaque):
+                return None
+        fn = self.expand.target(c) if hasattr(self.expand, "target") else None
+        if fn is not None:
+            try:
+                self.call(fn, c, env)
+                return None
+            except CannotEval as e:
+                return self.give_up(s, env, str(e))
+        # an uninterpreted call: harmless when nothing it is handed (receiver included) is a container of this run
+        if any(isinstance(env.get(nm), (dict, list, set)) for nm in loads_of(c)):
+            return self.give_up(s, env, f"call {short(c, 50)}")
+        return None
+
+
+def json_events(doc, prefix=""):
+    """the (prefix, event, value) stream ijson.parse produces for the JSON document `doc` (reference model of the event source; ints as 'integer', floats as 'double')."""
+    if isinstance(doc, dict):
+        yield (prefix, "start_map", None)
+        for k, v in doc.items():
+            yield (prefix, "map_key", k)
+            yield from json_events(v, f"{prefix}.{k}" if prefix else k)
+        yield (prefix, "end_map", None)
+    elif isinstance(doc, list):
+        yield (prefix, "start_array", None)
+        for v in doc:
+            yield from json_events(v, f"{prefix}.item" if prefix else "item")
+        yield (prefix, "end_array", None)
+    elif doc is None:
+        yield (prefix, "null", None)
+    elif isinstance(doc, bool):
+        yield (prefix, "boolean", doc)
+    elif isinstance(doc, int):
+        yield (prefix, "integer", doc)
+    elif isinstance(doc, float):
+        yield (prefix, "double", doc)
+    else:
+        yield (prefix, "string", doc)
+
+
+_SCALAR_EVENTS = ("null", "boolean", "integer", "double", "number", "string")
+
+
+def full_parse_view(events, props, lists, objects):
+    """what a FULL parse of the document behind `events` has for the requested paths, and the index of the event after which each of them is known:
+    scalar properties by their path, requested lists as 'is empty', requested flat objects as {member key: scalar value} (member keys as the map_key events spell them)."""
+    out, at = {}, {}
+    for i, (p, e, v) in enumerate(events):
+        if p in props and e in _SCALAR_EVENTS and p not in at:
+            out[p], at[p] = v, i
+        if lists is not None and p in lists and e == "start_array" and p not in at and i + 1 < len(events):
+            out[p], at[p] = events[i + 1][:2] == (p, "end_array"), i + 1
+        if objects is not None and p in objects and e == "start_map" and p not in at:
+            obj, key_, j = {}, None, i + 1
+            while j < len(events) and events[j][:2] != (p, "end_map"):
+                if events[j][:2] == (p, "map_key"):
+                    key_ = events[j][2]
+                elif events[j][1] in _SCALAR_EVENTS and key_ is not None and events[j][0] == p + "." + key_:
+                    obj[key_] = events[j][2]
+                j += 1
+            if j < len(events):
+                out[p], at[p] = obj, j
+    return out, at
+
+
+def same_json(a, b) -> bool:
+    """equality as JSON values: 0 / 0.0 / False and 1 / 1.0 / True are different values."""
+    if type(a) is not type(b):
+        return False
+    if isinstance(a, dict):
+        return a.keys() == b.keys() and all(same_json(a[k], b[k]) for k in a)
+    if isinstance(a, (list, tuple)):
+        return len(a) == len(b) and all(same_json(x, y) for x, y in zip(a, b))
+    return a == b
+
+
 def run(chk):
     repo = chk.repo
     rn = repo.module(_R)
     chk.use(rn)
     chk.explanation = (
-        "Decides agreement of sibling fast/slow paths and the shape of textual extraction: the bulk item loop of the detailed and of the fast path abstractly interpreted over 21 "
-        "representative items (status x _shards) must classify each item as failed iff status > 299 or _shards.failed > 0, identically in both; success == (error count == 0) in both; "
+        "Decides agreement of sibling fast/slow paths and the shape of textual extraction, on VALUES: detailed_stats and simple_stats are interpreted as whole functions (extracted "
+        "statements evaluated by minieval on probe bulk responses; helper methods they call are interpreted with them; the selective parse and the full re-parse of the probe are "
+        "supplied by the rule) - each of 24 representative items (status x _shards, odd error objects) must be reported as failed iff status > 299 or _shards.failed > 0, identically in "
+        "both paths, success == (error count == 0), the fast path re-parses iff `errors` is flagged; "
         "no JSON value's end is delimited by a regex character class / find on a structural character (regex AST query) and offsets found in one text are only applied to that same text; "
-        "the selective parser matches on full ijson prefixes, derives member keys by stripping the object's own path, and exits early only when everything requested was seen. "
+        "parse() is interpreted on the ijson event streams of small documents (same leaf at several depths, empty / nested lists, falsy members, dotted member keys) and must return what "
+        "a full parse has for the requested paths, stopping no earlier than when everything requested was seen. "
         "Orderings over the collected (status, reason) error details are evaluated over the details the extraction produces for representative failed items and must be total (F29); "
         "the pattern, locator literal and decoder offset of the cursor search are evaluated on seven spellings of the member (white space around the colon) and must point at the "
         "value's opening bracket (F30); once a cursor is stored in the shared body, every path to ANY exit of the page function (exception edges included) removes it again (F28). "
@@ -176,7 +699,92 @@ def run(chk):
         return out
 
     tables = {}
-    for f in (det, simp):
+    # an extracted item predicate (`if self._item_failed(data):`, a module-level / nested helper) is analysed through the expression it returns
+    expand1 = Expander(rn, BI, [n for f_ in (det, simp) for n in ast.walk(f_) if isinstance(n, ast.FunctionDef) and n is not f_])
+    # What the two paths REPORT, decided on values: each function is interpreted as a whole (Machine, tolerant: what it cannot interpret - request sizes, the ops histogram, the error
+    # description - becomes an unknown value and does not matter unless a decision needs it) on probe bulk responses. The rule supplies the two views of the response the functions
+    # ask for: parse(<response>, paths) -> the requested top-level scalars of the probe (the selective parse), json.loads(..) -> the whole probe (the full parse; how often it is
+    # asked for is recorded). Nothing is read off local names, the order of statements or the spelling of tests.
+    pf1 = rn.func("parse")
+    pp1 = params_of(pf1)
+    sp = params_of(simp)
+    if len(sp) < 4:
+        raise AnchorMissing("simple_stats(self, bulk_size, unit, response)")
+    dparams = [p_ for p_ in params_of(det) if p_ not in ("self", "cls")]
+    # the (fully parsed) response is the parameter whose `items` are read
+    dresp = [p_ for p_ in dparams if any(isinstance(n, ast.Subscript) and isinstance(n.value, ast.Name) and n.value.id == p_ and source.is_const(n.slice, "items") for n in ast.walk(det))
+             or any(isinstance(n, ast.Call) and isinstance(n.func, ast.Attribute) and n.func.attr == "get" and isinstance(n.func.value, ast.Name) and n.func.value.id == p_ and n.args
+                    and source.is_const(n.args[0], "items") for n in ast.walk(det))]
+    if len(dresp) != 1 or len(dparams) != 2:
+        raise AnchorMissing("detailed_stats(self, params, response): the parameter whose `items` are counted")
+    dresp = dresp[0]
+    # the method that extracts the error details of ONE failed item, by role: two parameters besides self, details are added (.add / .append) to one of them, and it is
+    # reachable through self.m() calls from BOTH counting paths (its name is used only to choose among several such methods)
+    def self_closure(f, seen=None):
+        seen = seen if seen is not None else {}
+        if f.name not in seen:
+            seen[f.name] = f
+            for n in ast.walk(f):
+                if isinstance(n, ast.Call) and is_self_attr(n.func) and n.func.attr in bm:
+                    self_closure(bm[n.func.attr], seen)
+        return seen
+
+    def adds_to_a_parameter(m_):
+        ps = [p_ for p_ in params_of(m_) if p_ not in ("self", "cls")]
+        return len(ps) == 2 and any(isinstance(n, ast.Call) and isinstance(n.func, ast.Attribute) and n.func.attr in ("add", "append") and isinstance(n.func.value, ast.Name)
+                                    and n.func.value.id in ps for n in walk_body(m_))
+
+    reach_det, reach_simp = self_closure(det), self_closure(simp)
+    xd_candidates = [m_ for name_, m_ in bm.items() if m_ not in (det, simp) and name_ in reach_det and name_ in reach_simp and adds_to_a_parameter(m_)]
+    xd_candidates = [m_ for m_ in xd_candidates if m_.name == "extract_error_details"] or xd_candidates
+    XD = xd_candidates[0] if len(xd_candidates) == 1 else None
+    XD_NAME = XD.name if XD is not None else "extract_error_details"
+    OK_ITEM = {"_index": "i", "_id": "1", "status": 201, "_shards": {"total": 2, "successful": 2, "failed": 0}}
+    BAD_ITEMS = [{"_index": "i", "_id": "2", "status": 429, "error": {"type": "x", "reason": "r"}}, {"_index": "i", "_id": "3", "status": 500, "error": {"type": "y", "reason": "q"}}]
+
+    def bulk_response(mix, errors="as Elasticsearch sets it"):
+        """probe response for a bulk of ok (True) / failed (False) items."""
+        bad = itertools.cycle(BAD_ITEMS)
+        r = {"took": 3}
+        if errors is not None:
+            r["errors"] = (not all(mix)) if errors == "as Elasticsearch sets it" else errors
+        r["items"] = [{("index" if i_ % 2 == 0 else "update"): copy.deepcopy(OK_ITEM if ok_ else next(bad))} for i_, ok_ in enumerate(mix)]
+        return r
+
+    def stats_of(f, resp, bulk_size=None, unit="docs"):
+        """(the stats dict f returns for the probe response, number of full parses it asked for, number of times the error details of an item were extracted) - f interpreted, never run."""
+        full_parses, details = [], []
+
+        def on_call(c, env, m):
+            if isinstance(c.func, ast.Name) and rn.index().get(c.func.id) is pf1:
+                a_ = source.bind_args(c, pf1)
+                req = m.val(a_[pp1[1]], env) if pp1[1] in a_ else []
+                return {k_: resp[k_] for k_ in req if k_ in resp and not isinstance(resp[k_], (dict, list))}
+            if dotted(c.func) in ("json.loads", "json.load"):
+                full_parses.append(c)
+                return copy.deepcopy(resp)
+            if is_self_attr(c.func, XD_NAME):
+                details.append(c)  # observed only: the machine interprets the method like any other helper
+            return NotImplemented
+
+        m = Machine(expand1, strict=False, on_call=on_call)
+        if f is simp:
+            env = {sp[1]: len(resp["items"]) if bulk_size is None else bulk_size, sp[2]: unit}
+        else:
+            env = {dresp: copy.deepcopy(resp), [p_ for p_ in dparams if p_ != dresp][0]: {"body": "{}\n{}", "action-metadata-present": True}}
+        sig = m.run(f.body, env)
+        if sig is None or sig[0] != "return" or not isinstance(sig[1], dict):
+            raise CannotEval(f"{f.name} does not return a dict for the probe response")
+        return sig[1], len(full_parses), len(details)
+
+    def reported(r, k_):
+        v_ = r.get(k_, "<not reported>")
+        if isinstance(v_, _Opaque):
+            raise CannotEval(f"the value reported under {k_!r} is not interpreted ({v_.what})")
+        return v_
+
+    def classifier_for(f):
+        """(item loop, classify(item) -> counters) - the item loop of f interpreted statement by statement (fallback when the function cannot be interpreted as a whole)."""
         L = item_loop(f)
         if not isinstance(L.target, ast.Name):
             raise AnchorMissing(f"loop variable of the item loop in {f.name}")
@@ -197,7 +805,7 @@ def run(chk):
             return ("err" if c == ERRC else "ok", k.value)
 
         def is_details(s):
-            return isinstance(s, ast.Expr) and isinstance(s.value, ast.Call) and last_attr(s.value.func) == "extract_error_details"
+            return isinstance(s, ast.Expr) and isinstance(s.value, ast.Call) and last_attr(s.value.func) == XD_NAME
 
         # backward slice of the classification: the names the counting decision depends on (by data flow and control dependence), instead of guessing relevance from variable names
         body_stmts = [n for st_ in L.body for n in source.walk_local(st_) if isinstance(n, ast.stmt)]
@@ -211,9 +819,9 @@ def run(chk):
             changed = False
             for s_ in body_stmts:
                 if isinstance(s_, ast.If) and touches(s_):
-                    need = loads_of(s_.test)
+                    need = loads_of(expand1(s_.test))
                 elif isinstance(s_, (ast.Assign, ast.AugAssign, ast.AnnAssign)) and not counter_hit(s_) and bound_by(s_) & rel:
-                    need = loads_of(s_)
+                    need = loads_of(s_) | (loads_of(expand1(s_.value)) if s_.value is not None else set())
                 else:
                     continue
                 if not need <= rel:
@@ -245,7 +853,7 @@ def run(chk):
                                 isinstance(s.targets[0], ast.Tuple) and not all(isinstance(x, ast.Name) for x in s.targets[0].elts)):
                             raise CannotEval(f"update of a value the item classification depends on: {short(s, 60)} at line {s.lineno}")
                         t = s.targets[0]
-                        val = ev(s.value, env)
+                        val = ev(expand1(s.value), env)
                         if isinstance(t, ast.Name):
                             env[t.id] = val
                         elif isinstance(t, ast.Subscript):
@@ -262,7 +870,7 @@ def run(chk):
                     elif isinstance(s, ast.If):
                         if not touches(s):
                             continue
-                        run_block(s.body if ev(s.test, env) else s.orelse)
+                        run_block(s.body if ev(expand1(s.test), env) else s.orelse)
                     elif isinstance(s, ast.Expr):
                         continue
                     else:
@@ -270,57 +878,87 @@ def run(chk):
 
             run_block(L.body)
             return counters
+        return L, classify
 
+    def whole_function(f, item):
+        """counters for a bulk response holding just this item (flagged `errors`, so that the fast path inspects it): f interpreted as a whole."""
+        r, _, n_details = stats_of(f, {"took": 3, "errors": True, "items": [{"index": copy.deepcopy(item)}]}, bulk_size=1)
+        return {"err": reported(r, "error-count"), "ok": reported(r, "success-count"), "details": n_details}
+
+    for f in (det, simp):
+        try:
+            L, classify = classifier_for(f)
+            no_loop = None
+        except AnchorMissing as e:
+            L, classify, no_loop = f, None, str(e)
+        if XD is None and f is det:
+            chk.unknown("O19.1", "the method of BulkIndex that extracts the error details of a failed item (two parameters, adds to one of them, called from both counting paths) "
+                                 f"could not be located ({len(xd_candidates)} candidates)", BI)
         rows = []
         for item in ITEMS:
             inst = f"{f.name}: item status={item['status']} _shards={'absent' if '_shards' not in item else 'failed=' + str(item['_shards']['failed'])}" + \
                 ("" if ("error" in item) == (item["status"] > 299) else (" without error object" if "error" not in item else " with error: null"))
             want_fail = item["status"] > 299 or ("_shards" in item and item["_shards"]["failed"] > 0)
             try:
-                c = classify(item)
-            except (CannotEval, TypeError) as e:
-                msg_ = f"item loop of {f.name} cannot be interpreted over the item domain: {e}"
-                if not any(msg_ in m_ for m_ in chk.inconclusive):
-                    chk.unknown("O19.1", msg_, L)
-                rows.append(None)
-                continue
+                c = whole_function(f, item)
+            except (CannotEval, TypeError) as e1:
+                try:
+                    if classify is None:
+                        raise CannotEval(f"anchor missing: {no_loop}")
+                    c = classify(item)
+                except (CannotEval, TypeError) as e:
+                    msg_ = f"{f.name} cannot be interpreted over the item domain: as a whole: {e1}; its item loop: {e}"
+                    if not any(msg_ in m_ for m_ in chk.inconclusive):
+                        chk.unknown("O19.1", msg_, L)
+                    rows.append(None)
+                    continue
             got = "failed" if (c["err"], c["ok"]) == (1, 0) else ("succeeded" if (c["err"], c["ok"]) == (0, 1) else f"err+={c['err']} ok+={c['ok']}")
             rows.append(got)
-            ok = got == ("failed" if want_fail else "succeeded") and (not want_fail or c["details"] == 1)
-            chk.ob("O19.1", inst, ok, L, f"counted as {got}" + (f", error details extracted {c['details']}x" if want_fail else "") + f"; full parse: {'failed' if want_fail else 'succeeded'}",
+            # (where the extraction of the details could not be located, only the counting is decided - the missing anchor is reported above, never as a violation)
+            ok = got == ("failed" if want_fail else "succeeded") and (not want_fail or XD is None or c["details"] == 1)
+            chk.ob("O19.1", inst, ok, L, f"counted as {got}" + (f", error details extracted {c['details']}x" if want_fail and XD is not None else "") + f"; full parse: {'failed' if want_fail else 'succeeded'}",
                    key=f"{_R}:BulkIndex.{f.name}:item:{item['status']}|{'absent' if '_shards' not in item else item['_shards']['failed']}" + ("" if ("error" in item) == (item["status"] > 299) else "|odd-error"))
         tables[f.name] = rows
-    chk.ob("O19.1", "detailed and fast path agree on every representative item", tables.get("detailed_stats") == tables.get("simple_stats"), det, "")
+    if None not in (tables.get("detailed_stats") or [None]) + (tables.get("simple_stats") or [None]):
+        chk.ob("O19.1", "detailed and fast path agree on every representative item", tables.get("detailed_stats") == tables.get("simple_stats"), det, "")
+    MIXES = ([], [True], [False], [True, False, True, False, True], [False, False], [True, True, True])
     for f in (det, simp):
-        dicts = [n for n in walk_body(f) if isinstance(n, ast.Dict) and any(source.is_const(k, "success") for k in n.keys)]
-        ok = False
-        if dicts:
-            d = {k.value: v for k, v in zip(dicts[0].keys, dicts[0].values) if isinstance(k, ast.Constant)}
-            ec_, oc_ = counter_names(f)
-            from sa import pat as _pat
-            ok = _pat.is_(d.get("success"), f"{ec_} == 0", f"not {ec_}", f"{ec_} < 1") and ec_ != oc_
-        chk.ob("O19.1", f"{f.name}: success == (error count == 0); counts reported under their names", ok, dicts[0] if dicts else f, "")
-        inits = [n for n in walk_body(f) if isinstance(n, ast.Assign) and u(n.targets[0]) == counter_names(f)[0] and source.is_const(n.value, 0)]
-        chk.ob("O19.1", f"{f.name}: error count starts at 0", len(inits) == 1 and not guards(inits[0]), inits[0] if inits else f, "")
-    # fast path: success count when no errors are flagged == bulk size (docs), reset to 0 before counting items
-    sp = params_of(simp)
-    if len(sp) < 4:
-        raise AnchorMissing("simple_stats(self, bulk_size, unit, response)")
-    sdefs = [n for n in walk_body(simp) if isinstance(n, ast.Assign) and u(n.targets[0]) == counter_names(simp)[1]]
-    Ls = item_loop(simp)
-    first = [n for n in sdefs if not guards(n)]  # the unconditional initial value
-    reset = [n for n in sdefs if guards(n)]      # the recount, under the gate of the item loop
-    ok = len(sdefs) == 2 and len(first) == 1 and len(reset) == 1
-    if ok:
         try:
-            # decided on values: for unit 'docs' the initial success count IS the bulk size, for any other unit it is not
-            ok = xev(first[0].value, {sp[1]: 7919, sp[2]: "docs"}) == 7919 and xev(first[0].value, {sp[1]: 7919, sp[2]: "ops"}) != 7919
-        except CannotEval:
-            ok = isinstance(first[0].value, ast.IfExp) and u(first[0].value.body) == sp[1]
-        # the recount starts from 0 under exactly the guards of the item loop, before the loop
-        ok = ok and source.is_const(reset[0].value, 0) and {(u(t), pol) for t, pol in guards(reset[0])} == {(u(t), pol) for t, pol in guards(Ls)} and reset[0].lineno < Ls.lineno
-    chk.ob("O19.1", "fast path: success count == bulk size unless items are inspected (then recounted from 0)", ok, first[0] if first else (sdefs[0] if sdefs else simp), "")
+            bad = None
+            for mix in MIXES:
+                r = stats_of(f, bulk_response(mix))[0]
+                n_bad, n_ok = mix.count(False), mix.count(True)
+                got = (reported(r, "success"), reported(r, "success-count"), reported(r, "error-count"))
+                if not (same_json(got[0], n_bad == 0) and same_json(got[1], n_ok) and same_json(got[2], n_bad)) and bad is None:
+                    bad = f"bulk of {n_ok} succeeded and {n_bad} failed item(s): reported success={got[0]!r} success-count={got[1]!r} error-count={got[2]!r}"
+            chk.ob("O19.1", f"{f.name}: success == (error count == 0); counts reported under their names", bad is None, f, bad or f"{len(MIXES)} probe responses")
+            r0 = stats_of(f, bulk_response([]))[0]
+            r1 = stats_of(f, bulk_response([True, True]))[0]
+            chk.ob("O19.1", f"{f.name}: error count starts at 0", same_json(reported(r0, "error-count"), 0) and same_json(reported(r1, "error-count"), 0), f,
+                   f"no failed item: error-count {reported(r0, 'error-count')!r} / {reported(r1, 'error-count')!r}")
+        except (CannotEval, TypeError) as e:
+            chk.unknown("O19.1", f"{f.name} cannot be interpreted on the probe bulk responses: {e}", f)
+    # fast path: success count when no errors are flagged == bulk size (docs), recounted from 0 when the items are inspected; the full parse happens iff errors are flagged
     full = [n for n in walk_body(simp) if isinstance(n, ast.Call) and dotted(n.func) == "json.loads"]
+    try:
+        quiet_docs = stats_of(simp, bulk_response([True, True]), bulk_size=7919, unit="docs")[0]
+        quiet_ops = stats_of(simp, bulk_response([True, True]), bulk_size=7919, unit="ops")[0]
+        loud_docs = stats_of(simp, bulk_response([True, False, True]), bulk_size=7919, unit="docs")[0]
+        loud_ops = stats_of(simp, bulk_response([True, False, True]), bulk_size=7919, unit="ops")[0]
+        got = [reported(x, "success-count") for x in (quiet_docs, quiet_ops, loud_docs, loud_ops)]
+        ok = same_json(got[0], 7919) and not same_json(got[1], 7919) and same_json(got[2], 2) and same_json(got[3], 2)
+        chk.ob("O19.1", "fast path: success count == bulk size unless items are inspected (then recounted from 0)", ok, simp,
+               f"bulk size 7919: success-count {got[0]!r} (docs) / {got[1]!r} (ops) when no errors are flagged; {got[2]!r} / {got[3]!r} for 2 succeeded + 1 failed item")
+        mixed = [True, False, True, False]
+        n_full = [stats_of(simp, bulk_response(mixed, errors=e_))[1] for e_ in (True, False, None)]
+        r_fast = stats_of(simp, bulk_response(mixed, errors=True))[0]
+        r_det = stats_of(det, bulk_response(mixed, errors=True))[0]
+        agree = all(same_json(reported(r_fast, k_), reported(r_det, k_)) for k_ in ("success", "success-count", "error-count"))
+        chk.ob("O19.1", "fast path re-parses fully when errors are flagged", n_full[0] >= 1 and n_full[1:] == [0, 0] and agree, full[0] if full else simp,
+               f"full parses with errors=true / false / absent: {n_full}; with errors=true the fast path reports " + ", ".join(f"{k_}={reported(r_fast, k_)!r}" for k_ in ("success-count", "error-count"))
+               + ("" if agree else " and the detailed path " + ", ".join(f"{k_}={reported(r_det, k_)!r}" for k_ in ("success-count", "error-count"))))
+    except (CannotEval, TypeError) as e:
+        chk.unknown("O19.1", f"simple_stats cannot be interpreted on the probe bulk responses: {e}", simp)
     # the variable holding the selectively parsed flags: assigned from parse(response, [... 'errors' ...])
     flagv = [n.targets[0].id for n in walk_body(simp) if isinstance(n, ast.Assign) and len(n.targets) == 1 and isinstance(n.targets[0], ast.Name) and isinstance(n.value, ast.Call)
              and dotted(n.value.func) == "parse" and has_const(n.value, "errors")]
@@ -332,43 +970,51 @@ def run(chk):
         env = {flagv[0]: ({"took": 3} if errors is None else {"took": 3, "errors": errors})}
         sdefs_ = {k_: v_ for k_, v_ in local_defs(simp).items() if k_ != flagv[0]}
         try:
-            return all(bool(xev(source.inline_node(t, sdefs_), dict(env))) == pol for t, pol in guards(node))
+            return all(bool(xev(expand1(source.inline_node(t, sdefs_)), dict(env))) == pol for t, pol in guards(node))
         except CannotEval:
             return None
-
-    ok = bool(full)
-    if ok:
-        g_ = [gate_open(full[0], e_) for e_ in (True, False, None)]
-        ok = g_ == [True, False, False] if None not in g_ else any(has_const(t, "errors") and pol for t, pol in guards(full[0]))
-    chk.ob("O19.1", "fast path re-parses fully when errors are flagged", ok, full[0] if full else simp, "")
 
     # ---- O19.4 known finding F10 ---------------------------------------------------------------------------------------------------------------------
     chk.rule("O19.4", "the fast-path gate (top-level `errors` flag) summarises every disjunct of the item failure predicate", 1,
              "item with status 201 and _shards.failed=1 while errors=false: fast path reports success 1/0, detailed path failure 0/1; the same gate hides the other disjunct for a bulk "
              "delete of an absent document (404 / result not_found, no error object, errors=false): fast path success 4/0, detailed path failure 3/1 (hunt C19-f3, another face of F10)")
-    L = item_loop(simp)
-    g_ = [gate_open(L, e_) for e_ in (True, False, None)]
-    # the loop runs with errors=true but not with errors=false / absent (evaluated); fallback: a guard mentions the `errors` key
-    gated_by_errors = (g_[0] is True and g_[1] is False) if None not in g_ else any(has_const(t, "errors") for t, _ in guards(L))
-    # the item predicate has the `_shards.failed > 0` disjunct: read off the interpreted table (an item that fails ONLY because of its shards is counted as failed)
-    rows_s = tables.get("simple_stats") or []
-    shard_only = [i for i, it in enumerate(ITEMS) if it["status"] <= 299 and "_shards" in it and it["_shards"]["failed"] > 0]
-    if len(rows_s) == len(ITEMS) and all(rows_s[i] is not None for i in shard_only):
-        pred_has_shards = any(rows_s[i] == "failed" for i in shard_only)
-    else:
-        pred_has_shards = any(has_const(n.test, "_shards") for n in ast.walk(L) if isinstance(n, ast.If))
-    chk.ob("O19.4", "fast-path gate vs `_shards.failed > 0`", not (gated_by_errors and pred_has_shards), L,
-           "items are only inspected when the response's `errors` flag is set, but the item predicate also fails items with _shards.failed > 0, which Elasticsearch does not reflect in `errors`",
-           key=f"{_R}:BulkIndex.simple_stats:gate-vs-item-predicate:_shards.failed")
+    # decided on values: a bulk whose only failure is a shard failure of an item with a 2xx status - Elasticsearch does not set `errors` for it. Both paths are interpreted on this
+    # response: if the fast path reports other counts than the detailed path, the gate hides a disjunct of the item predicate.
+    SHARD_ONLY = {"took": 3, "errors": False, "items": [{"index": {"_index": "i", "_id": "1", "status": 201, "_shards": {"total": 2, "successful": 1, "failed": 1}}},
+                                                       {"index": copy.deepcopy(OK_ITEM)}]}
+    site4 = simp
+    try:
+        site4 = item_loop(simp)
+    except AnchorMissing:
+        pass
+    try:
+        fast4, slow4 = stats_of(simp, SHARD_ONLY)[0], stats_of(det, SHARD_ONLY)[0]
+        hidden = not all(same_json(reported(fast4, k_), reported(slow4, k_)) for k_ in ("success", "success-count", "error-count"))
+        detail4 = "errors=false, one item with status 201 and _shards.failed=1: the fast path reports " + ", ".join(f"{k_}={reported(fast4, k_)!r}" for k_ in ("success", "success-count", "error-count")) \
+            + "; the detailed path " + ", ".join(f"{k_}={reported(slow4, k_)!r}" for k_ in ("success", "success-count", "error-count"))
+    except (CannotEval, TypeError):
+        # fallback (the functions cannot be interpreted as a whole): the guards of the item loop evaluated for errors = true / false / absent, the predicate read off the item table
+        L = item_loop(simp)
+        g_ = [gate_open(L, e_) for e_ in (True, False, None)]
+        gated_by_errors = (g_[0] is True and g_[1] is False) if None not in g_ else any(has_const(t, "errors") for t, _ in guards(L))
+        rows_s = tables.get("simple_stats") or []
+        shard_only = [i for i, it in enumerate(ITEMS) if it["status"] <= 299 and "_shards" in it and it["_shards"]["failed"] > 0]
+        if len(rows_s) == len(ITEMS) and all(rows_s[i] is not None for i in shard_only):
+            pred_has_shards = any(rows_s[i] == "failed" for i in shard_only)
+        else:
+            pred_has_shards = any(has_const(n.test, "_shards") for n in ast.walk(L) if isinstance(n, ast.If))
+        hidden = gated_by_errors and pred_has_shards
+        detail4 = "items are only inspected when the response's `errors` flag is set, but the item predicate also fails items with _shards.failed > 0, which Elasticsearch does not reflect in `errors`"
+    chk.ob("O19.4", "fast-path gate vs `_shards.failed > 0`", not hidden, site4, detail4, key=f"{_R}:BulkIndex.simple_stats:gate-vs-item-predicate:_shards.failed")
 
     # ---- O19.9 orderings over the collected error details are total (F29) ------------------------------------------------------------------------------------------
     chk.rule("O19.9", "every ordering (sorted / sort / min / max) applied to the error details collected from the failed bulk items is total over the details the extraction can produce: "
              "a failed item may carry no reason (detail (status, None)) next to an item of the same status that carries one (detail (status, str))", 1,
              "two failed items share a status and only one has an error reason (delete of an absent document + update of an absent document; `reason: null`): TypeError from comparing "
              "None with str in BOTH the detailed and the fast path - neither reports success / error counts at all")
-    xd = bm.get("extract_error_details")
+    xd = XD
     if xd is None:
-        raise AnchorMissing("BulkIndex.extract_error_details")
+        raise AnchorMissing("BulkIndex.extract_error_details (the method that adds the details of one failed item to a collection)")
     # roles of its parameters by use: the collection is the one details are added to, the item is the other one
     xparams = [p_ for p_ in params_of(xd) if p_ not in ("self", "cls")]
     coll = [p_ for p_ in xparams if any(isinstance(n, ast.Call) and isinstance(n.func, ast.Attribute) and n.func.attr in ("add", "append") and isinstance(n.func.value, ast.Name)
@@ -442,10 +1088,19 @@ def run(chk):
 
     if DETAILS is not None:
         # the counting paths themselves and the methods of the class they hand the SAME collection to (and whatever those pass it on to)
+        def detail_collections(fn, depth=0):
+            """the names (locals / parameters of fn) handed to extract_error_details as the collection - directly or through helper methods of the class that pass them on."""
+            out = set()
+            for n in walk_body(fn):
+                if isinstance(n, ast.Call) and is_self_attr(n.func) and n.func.attr in bm:
+                    callee = bm[n.func.attr]
+                    roles = {DCOLL} if callee is xd else ((detail_collections(callee, depth + 1) & set(params_of(callee))) if depth < 3 and callee is not fn else set())
+                    out |= {a.id for p_, a in source.bind_args(n, callee).items() if p_ in roles and isinstance(a, ast.Name)}
+            return out
+
         todo = []
         for f in (det, simp):
-            xcalls = [n for n in walk_body(f) if isinstance(n, ast.Call) and is_self_attr(n.func, xd.name)]
-            names = {a.id for c_ in xcalls for a in [source.bind_args(c_, xd).get(DCOLL)] if isinstance(a, ast.Name)}
+            names = detail_collections(f)
             if len(names) != 1:
                 raise AnchorMissing(f"{f.name}: the collection handed to extract_error_details")
             todo.append((f, names.pop()))
@@ -542,28 +1197,47 @@ def run(chk):
     texts = {}
     for n in walk_body(gl):
         if isinstance(n, ast.Assign) and isinstance(n.targets[0], ast.Name) and isinstance(n.value, ast.Call) and last_attr(n.value.func) in ("rfind", "find", "index", "rindex"):
-            texts[n.targets[0].id] = u(n.value.func.value)
+            texts[n.targets[0].id] = u(source.inline_node(n.value.func.value, gdefs))  # single-assignment aliases of the text resolved
     n_off = 0
     for n in walk_body(gl):
         tgt = None
         used = set()
         if isinstance(n, ast.Subscript) and isinstance(n.slice, ast.Slice):
-            tgt = u(n.value)
+            tgt = u(source.inline_node(n.value, gdefs))
             used = {x.id for x in ast.walk(n.slice) if isinstance(x, ast.Name)}
         elif isinstance(n, ast.Call) and last_attr(n.func) == "raw_decode" and len(n.args) == 2:
-            tgt = u(n.args[0])
+            tgt = u(source.inline_node(n.args[0], gdefs))
             used = {x.id for x in ast.walk(n.args[1]) if isinstance(x, ast.Name)}
         elif isinstance(n, ast.Call) and last_attr(n.func) in ("search", "match") and len(n.args) >= 3:
-            tgt = u(n.args[1])
+            tgt = u(source.inline_node(n.args[1], gdefs))
             used = {x.id for x in ast.walk(n.args[2]) if isinstance(x, ast.Name)}
         for v in used & set(texts):
             n_off += 1
             ok = texts[v] == tgt
             chk.ob("O19.2", f"offset `{v}` (found in `{texts[v]}`) applied to `{tgt}`", ok, n, "" if ok else "an offset found in one text (e.g. the raw bytes) indexes another (the decoded string): they differ by the number of multi-byte characters before it")
-    chk.ob("O19.2", "offset uses located", n_off >= 1, gl, f"{n_off} use(s)")
-    # decoded once: the text searched is the decoded response
-    dec = [n for n in walk_body(gl) if isinstance(n, ast.Call) and last_attr(n.func) == "decode"]
-    chk.ob("O19.2", "response decoded as UTF-8 before searching", bool(dec) and any(source.is_const(a, "UTF-8") or source.is_const(a, "utf-8") for a in dec[0].args), dec[0] if dec else gl, "")
+    if n_off >= 1:
+        chk.ob("O19.2", "offset uses located", True, gl, f"{n_off} use(s)")
+    else:
+        chk.unknown("O19.2", "_get_last_sort: no use of an offset found by a text search (find / rfind / index) could be located", gl)
+    # decoded once: the text searched is the decoded response. The codec is decided on its VALUE (any spelling of UTF-8; bytes.decode() without an argument is UTF-8)
+    import codecs as _codecs
+    dec = [n for n in walk_body(gl) if isinstance(n, ast.Call) and isinstance(n.func, ast.Attribute) and n.func.attr == "decode"] + \
+          [n for n in walk_body(gl) if isinstance(n, ast.Call) and dotted(n.func) == "str" and (len(n.args) >= 2 or any(k.arg == "encoding" for k in n.keywords))]
+    if not dec:
+        chk.unknown("O19.2", "_get_last_sort: where the response bytes are decoded could not be located", gl)
+    else:
+        d0 = dec[0]
+        enc = next((k.value for k in d0.keywords if k.arg == "encoding"), None) or (d0.args[0] if dotted(d0.func) != "str" and d0.args else (d0.args[1] if dotted(d0.func) == "str" and len(d0.args) >= 2 else None))
+        if enc is None:
+            chk.ob("O19.2", "response decoded as UTF-8 before searching", True, d0, "bytes.decode(): UTF-8 by default")
+        elif isinstance(enc, ast.Constant) and isinstance(enc.value, str):
+            try:
+                codec = _codecs.lookup(enc.value).name
+            except LookupError:
+                codec = f"unknown codec {enc.value!r}"
+            chk.ob("O19.2", "response decoded as UTF-8 before searching", codec == "utf-8", d0, f"codec: {codec}")
+        else:
+            chk.unknown("O19.2", f"_get_last_sort: the codec `{short(enc, 40)}` the response is decoded with is not a literal", d0)
     # F30: the START of the value, decided on values. The extracted locator literal (rfind / find argument), the extracted pattern literal and the extracted decoder offset expression
     # are evaluated on a response whose last hit spells the member with white space on either side of the colon: the offset handed to the decoder must be the position of the value's
     # opening bracket (what a full parse of the same text uses). Nothing of the repository runs: `re` is applied to the pattern LITERAL, str.rfind to the locator LITERAL.
@@ -596,8 +1270,10 @@ def run(chk):
         ptxt = compiled_literal(pexpr)
         if ptxt is None:
             continue
-        as_ = source.enclosing_stmt(n)
-        mv = as_.targets[0].id if isinstance(as_, ast.Assign) and as_.value is n and len(as_.targets) == 1 and isinstance(as_.targets[0], ast.Name) else None
+        # the name the match object is bound to: by a plain assignment or by an assignment expression (`if (m := pattern.search(text)) is None: return None`)
+        as_, np_ = source.enclosing_stmt(n), source.parent(n)
+        mv = as_.targets[0].id if isinstance(as_, ast.Assign) and as_.value is n and len(as_.targets) == 1 and isinstance(as_.targets[0], ast.Name) else (
+            np_.target.id if isinstance(np_, ast.NamedExpr) and np_.value is n and isinstance(np_.target, ast.Name) else None)
         probes.append((n, meth, ptxt, texpr, mv))
     if len(probes) != 1:
         raise AnchorMissing(f"_get_last_sort: the one pattern search that locates the cursor value ({len(probes)} found)")
@@ -718,26 +1394,41 @@ def run(chk):
 
     from sa.cfg import conjuncts as _conjuncts
 
-    def removal_sites(fn, key, recv):
+    def removal_sites(fn, key, recv, depth=0):
         """the statements of fn that, whenever they are reached, leave the dict `recv` without `key`: `recv.pop(key[, default])` / `del recv[key]`, lifted over
           - guards that only ask whether there is anything to remove (`if recv:`, `if recv is not None:`, `if key in recv:`, `isinstance(recv, dict)`): the enclosing `if` is the site;
           - `for k in [<literals including key>]: recv.pop(k, default)`: a loop over a non-empty literal runs its body for every element, so the `for` is the site
-            (the pop must be a direct statement of a loop body without jumps, and must not raise for an absent key)."""
-        out = []
+            (the pop must be a direct statement of a loop body without jumps, and must not raise for an absent key);
+          - a call of a helper (method of Query, function nested in __call__, function of the module) that is handed `recv` and removes the key from that parameter on every
+            path through it (an extracted clean-up): the statement with the call is the site."""
+        found = []  # (node, key expression or None for a helper call, pop with default?)
         for n in walk_body(fn):
-            arg, total = None, False
             if isinstance(n, ast.Call) and isinstance(n.func, ast.Attribute) and n.func.attr == "pop" and n.args and not n.keywords and u(n.func.value) == recv:
-                arg, total = n.args[0], len(n.args) == 2
+                found.append((n, n.args[0], len(n.args) == 2))
             elif isinstance(n, ast.Delete):
                 for t in n.targets:
                     if isinstance(t, ast.Subscript) and u(t.value) == recv:
-                        arg = t.slice
-            if arg is None:
-                continue
+                        found.append((n, t.slice, False))
+            elif isinstance(n, ast.Call) and depth < 3:
+                callee = rn.methods(Q).get(n.func.attr) if is_self_attr(n.func) else (
+                    (inner.get(n.func.id) or (rn.index().get(n.func.id) if isinstance(rn.index().get(n.func.id), (ast.FunctionDef, ast.AsyncFunctionDef)) else None)) if isinstance(n.func, ast.Name) else None)
+                if callee is None or callee is fn:
+                    continue
+                for p_, a_ in source.bind_args(n, callee).items():
+                    if u(a_) != recv:
+                        continue
+                    as_written = source.flat(callee.body)
+                    inner_sites = removal_sites(callee, key, p_, depth + 1)
+                    # on every path through the helper: a site that is a statement of the helper's body itself, nothing before it can leave the helper
+                    if any(any(x is y for y in as_written) and not any(isinstance(z, (ast.Return, ast.Raise, ast.Yield, ast.YieldFrom)) for w in as_written[:[id(y) for y in as_written].index(id(x))]
+                                                                       for z in source.walk_explicit(w)) for x in inner_sites):
+                        found.append((n, None, True))
+        out = []
+        for n, arg, total in found:
             pending = None
             if isinstance(arg, ast.Name):
                 pending = arg.id  # the key is a loop variable: resolved when the loop over the literal keys is reached
-            elif not source.is_const(arg, key):
+            elif arg is not None and not source.is_const(arg, key):
                 continue
             s_ = source.enclosing_stmt(n)
 
@@ -777,8 +1468,16 @@ def run(chk):
         return is_logging_stmt(s) or (isinstance(c, ast.Call) and isinstance(c.func, ast.Attribute) and c.func.attr == "pop" and isinstance(c.func.value, ast.Name) and len(c.args) == 2
                                       and not c.keywords and isinstance(c.args[0], (ast.Constant, ast.Name)) and isinstance(c.args[1], ast.Constant))
 
-    for fname, extractor, cursor_key, cursor_call, cursor_member in (("_search_after_query", "_search_after_extractor", "search_after", "_get_last_sort", None),
-                                                                    ("_composite_agg", "_composite_agg_extractor", "after", None, "after_key")):
+    def extractor_attr(cls_name):
+        """the attribute under which Query keeps its instance of the extractor class (self.<attr> = <cls_name>())."""
+        attrs = {t.attr for n in ast.walk(Q) if isinstance(n, ast.Assign) and isinstance(n.value, ast.Call) and isinstance(n.value.func, ast.Name) and n.value.func.id == cls_name
+                 for t in n.targets if is_self_attr(t)}
+        if len(attrs) != 1:
+            raise AnchorMissing(f"Query: self.<attribute> = {cls_name}()")
+        return attrs.pop()
+
+    for fname, extractor, cursor_key, cursor_call, cursor_member in (("_search_after_query", extractor_attr("SearchAfterExtractor"), "search_after", "_get_last_sort", None),
+                                                                    ("_composite_agg", extractor_attr("CompositeAggExtractor"), "after", None, "after_key")):
         f = inner.get(fname)
         if f is None:
             raise AnchorMissing(f"Query.{fname}")
@@ -795,20 +1494,41 @@ def run(chk):
         RES = rets.pop()
         rq = [n for n in ast.walk(PL_) if isinstance(n, ast.Await) and isinstance(n.value, ast.Call) and u(n.value.func) == "self._raw_search"]
         ex_ = [n for n in ast.walk(PL_) if isinstance(n, ast.Call) and u(n.func) == f"self.{extractor}"]
+        if not rq and len(ex_) == 1 and ex_[0].args and isinstance(ex_[0].args[0], ast.Name):
+            # the request method goes by another name: the page request is the awaited call whose result is the response handed to the extractor (by data flow)
+            rq = [n for n in ast.walk(PL_) if isinstance(n, ast.Await) and isinstance(n.value, ast.Call) and isinstance(source.enclosing_stmt(n), ast.Assign) and source.enclosing_stmt(n).value is n
+                  and any(isinstance(t, ast.Name) and t.id == ex_[0].args[0].id for t in source.enclosing_stmt(n).targets)]
         ok = len(rq) == 1 and len(ex_) == 1
         rs_ = source.enclosing_stmt(rq[0]) if ok else None
         resp = rs_.targets[0].id if isinstance(rs_, ast.Assign) and rs_.value is rq[0] and len(rs_.targets) == 1 and isinstance(rs_.targets[0], ast.Name) else None
+        # the argument of the extractor call that is the response: bound (by position or keyword) to the parameter its __call__ hands to parse() as the text
+        ecall_ = rn.methods(extractor_class(extractor)).get("__call__")
+        rarg = None
+        if ecall_ is not None and ex_:
+            eparams_ = [p_ for p_ in params_of(ecall_) if p_ not in ("self", "cls")]
+            pf6 = rn.func("parse")
+            texts_ = {a_.id for c_ in walk_body(ecall_) if isinstance(c_, ast.Call) and dotted(c_.func) == "parse" for a_ in [source.bind_args(c_, pf6).get(params_of(pf6)[0])]
+                      if isinstance(a_, ast.Name) and a_.id in eparams_}
+            rparam_ = texts_.pop() if len(texts_) == 1 else (eparams_[0] if eparams_ else None)
+            rarg = source.bind_args(ex_[0], ecall_).get(rparam_) if rparam_ else None
 
         def loop_stores(name, PL_=PL_):
             """statements of the page loop that (re)bind the local `name`."""
             return [n for n in ast.walk(PL_) if isinstance(n, (ast.Assign, ast.AugAssign, ast.AnnAssign, ast.For, ast.NamedExpr, ast.With)) and name in stores_of(
                 n.target if isinstance(n, (ast.For, ast.AugAssign, ast.AnnAssign, ast.NamedExpr)) else (ast.Tuple(elts=[i.optional_vars for i in n.items if i.optional_vars is not None]) if isinstance(n, ast.With) else ast.Tuple(elts=list(n.targets))))]
 
-        ok = ok and resp is not None and len(loop_stores(resp)) == 1 and bool(ex_[0].args) and isinstance(ex_[0].args[0], ast.Name) and ex_[0].args[0].id == resp \
-            and gq.dominated_by_nodes(gq.node_of(ex_[0]), [gq.node_of(rq[0])]) and not gq.path_exists(gq.node_of(ex_[0]), gq.node_of(rq[0]), avoid=[gq.node_of(PL_)])
-        chk.ob("O19.6", f"{fname}: one request per page, its own response handed to the extractor", ok, ex_[0] if ex_ else PL_, "")
+        if not rq or not ex_:
+            chk.unknown("O19.6", f"{fname}: the page request (await self._raw_search(..)) or the call of self.{extractor}(..) could not be located in the page loop", PL_)
+        else:
+            ok = ok and resp is not None and len(loop_stores(resp)) == 1 and isinstance(rarg, ast.Name) and rarg.id == resp \
+                and gq.dominated_by_nodes(gq.node_of(ex_[0]), [gq.node_of(rq[0])]) and not gq.path_exists(gq.node_of(ex_[0]), gq.node_of(rq[0]), avoid=[gq.node_of(PL_)])
+            chk.ob("O19.6", f"{fname}: one request per page, its own response handed to the extractor", ok, ex_[0], "")
         st = [n for n in ast.walk(PL_) if isinstance(n, ast.Assign) and isinstance(n.targets[0], ast.Subscript) and source.is_const(n.targets[0].slice, cursor_key)]
         ok = len(st) == 1 and len(ex_) == 1
+        if not ok:
+            chk.unknown("O19.6", f"{fname}: the one statement of the page loop that stores the next cursor (<body>[{cursor_key!r}] = ..) / the one call of self.{extractor}(..) could not be located "
+                                 f"({len(st)} store(s), {len(ex_)} call(s))", PL_)
+            ok = None
         if ok:
             es_ = source.enclosing_stmt(ex_[0])
             et = es_.targets[0] if isinstance(es_, ast.Assign) and es_.value is ex_[0] and len(es_.targets) == 1 else None
@@ -821,11 +1541,11 @@ def run(chk):
                         return isinstance(e_, ast.Name) and e_.id == et.elts[how[1]].id and len(loop_stores(e_.id)) == 1, [es_]
                     if isinstance(et, ast.Name):
                         return _pat.match(e_, f"V_p[{how[1]}]", binds={"p": et.id}) is not None and len(loop_stores(et.id)) == 1, [es_]
-                    return False, []
+                    return None, []  # how the extractor's result is taken apart is not recognised
                 if isinstance(et, ast.Name):
                     # <result>[key] with <result> bound once per page, from the extractor call
                     return _pat.match(e_, f"V_p[{how[1]!r}]", binds={"p": et.id}) is not None and len(loop_stores(et.id)) == 1, [es_]
-                return False, []
+                return None, []
 
             v_ = st[0].value
             direct, need = from_extractor(v_)
@@ -840,8 +1560,12 @@ def run(chk):
                     need = need + [binds[0]]
             else:
                 ok = False
-            ok = ok and all(gq.dominated_by_nodes(gq.node_of(st[0]), [gq.node_of(n_)]) for n_ in need)
-        chk.ob("O19.6", f"{fname}: next cursor := the extractor's result for this page", ok, st[0] if st else PL_, short(st[0], 70) if st else "cursor never set")
+            if ok is None:
+                chk.unknown("O19.6", f"{fname}: how the result of self.{extractor}(..) is taken apart is not recognised (`{short(es_, 60)}`)", es_)
+            else:
+                ok = ok and all(gq.dominated_by_nodes(gq.node_of(st[0]), [gq.node_of(n_)]) for n_ in need)
+        if ok is not None:
+            chk.ob("O19.6", f"{fname}: next cursor := the extractor's result for this page", ok, st[0], short(st[0], 70))
         # the body belongs to the parameter source, which hands it out again for the next invocation: a cursor may only be stored into it when another page of THIS invocation will
         # be requested (guard `page < last page` of `for page in range(1, last + 1)`), or it is removed again on every path to the return (also when the page limit ends the loop)
         if st:
@@ -864,6 +1588,29 @@ def run(chk):
             # key before its first request. Exceptions a handler for `Exception` catches are taken as caught: what on-error=continue swallows (TransportError, ApiError) is below it,
             # anything else ends the benchmark
             recv_ = u(st[0].targets[0].value)
+
+            def private_copy(name, deep, depth=0, fq_=fq_):
+                """the dict `name` refers to was copied by this invocation (deep: also its nested dicts) - or is reached from such a copy: the parameter source's body is never touched."""
+                binds = [n for fn_ in (fq_, qcall) for n in walk_body(fn_) if isinstance(n, ast.Assign) and any(isinstance(t, ast.Name) and t.id == name for t in n.targets)
+                         and not source.is_const(n.value, None)]
+                if not binds or depth > 4:
+                    return False
+
+                def is_copy(v):
+                    v = v.value if isinstance(v, ast.Await) else v
+                    if not isinstance(v, (ast.Call, ast.Subscript)):
+                        return False
+                    if isinstance(v, ast.Call) and dotted(v.func) in ("copy.deepcopy", "deepcopy") and len(v.args) == 1:
+                        return True
+                    if isinstance(v, ast.Call) and not deep and len(v.args) <= 1 and (dotted(v.func) in ("copy.copy", "dict") or (isinstance(v.func, ast.Attribute) and v.func.attr == "copy" and not v.args)):
+                        return True
+                    # a part of a copy (e.g. resolve_composite_agg(<copy>, path)): private if every local it is computed from is (computed from) a deep copy made by this invocation
+                    srcs = loads_of(v) - {root_name(c_.func) for c_ in ast.walk(v) if isinstance(c_, ast.Call)} - {name, "self"}
+                    return bool(srcs) and all(private_copy(x_, True, depth + 1) for x_ in srcs)
+
+                return all(is_copy(b_.value) for b_ in binds)
+
+            private_ = isinstance(st[0].targets[0].value, ast.Name) and private_copy(st[0].targets[0].value.id, deep=False)
             sites_ = removal_sites(fq_, cursor_key, recv_)
             gx = cfg_catching_exception(fq_)
             thr_ = [n_ for s_ in sites_ for n_ in gx.nodes_of(s_)]
@@ -894,14 +1641,15 @@ def run(chk):
             fresh_ = [n_ for s_ in sites_ if not any(a_ is PL_ for a_ in source.ancestors(s_)) and s_ is not PL_ for n_ in gx.nodes_of(s_)]
             starts_clean = bool(fresh_) and len(rq) == 1 and all(gx.dominated_by_nodes(r_, fresh_) for r_ in gx.nodes_of(rq[0]))
             chk.ob("O19.6", f"{fname}: once stored, the cursor is removed from the operation's body on EVERY exit of the invocation, also when a later page request raises",
-                   (bool(thr_) and leak is None) or starts_clean, st[0],
+                   (bool(thr_) and leak is None) or starts_clean or private_, st[0],
+                   "stored into a copy of the body made by this invocation: the body the parameter source hands out again is never touched" if private_ else
                    "removed before the first request of every invocation" if starts_clean else
                    (f"{len(sites_)} removal site(s) of {recv_}[{cursor_key!r}]; every path from the store to the return and to a propagating exception passes one" if thr_ and leak is None else
                     (f"no statement removes {recv_}[{cursor_key!r}]" if not thr_ else
                      f"after the store the function can be left ({leak[0]}) without removing {recv_}[{cursor_key!r}]: with on-error=continue the next iteration of the task starts "
                      f"from this stale cursor instead of the first page")),
                    key=f"{_R}:Query.{fname}:cursor-removed-on-every-exit", path=(leak[1][:40] if leak else None))
-            every_exit = (bool(thr_) and leak is None) or starts_clean
+            every_exit = (bool(thr_) and leak is None) or starts_clean or private_
             chk.ob("O19.6", f"{fname}: the cursor never survives the invocation in the operation's body", more or cleaned or every_exit, st[0],
                    "stored only when another page follows" if more else ("removed on every path to the return" if cleaned or every_exit else
                    "when the page limit ends the loop the cursor stays in the body the parameter source hands out again: the next iteration of the task starts from a stale cursor"),
@@ -909,10 +1657,28 @@ def run(chk):
         pg = {n.targets[0].slice.value: n.value for n in ast.walk(PL_) if isinstance(n, ast.Assign) and isinstance(n.targets[0], ast.Subscript) and isinstance(n.targets[0].value, ast.Name)
               and n.targets[0].value.id == RES and isinstance(n.targets[0].slice, ast.Constant)}
         iv = PL_.target.id
-        ok = all(isinstance(pg.get(k_), ast.Name) and pg[k_].id == iv for k_ in ("pages", "weight")) and len(PL_.iter.args) == 2 and source.is_const(PL_.iter.args[0], 1) and len(loop_stores(iv)) == 1
-        chk.ob("O19.6", f"{fname}: pages == weight == requests issued", ok, PL_, f"{ {k: u(v) for k, v in pg.items() if k in ('pages', 'weight')} }")
+        if "pages" not in pg or "weight" not in pg:
+            chk.unknown("O19.6", f"{fname}: where the page loop records `pages` / `weight` in the result could not be located", PL_)
+        else:
+            try:
+                # decided on values: in the k-th iteration of the page loop (k = 1, 2: one request each) both members are k
+                ra_ = PL_.iter.args
+                first_ = ev(ra_[0], {}) if len(ra_) >= 2 else 0
+                if not 1 <= len(ra_) <= 3 or type(first_) is not int or PL_.iter.keywords or (len(ra_) == 3 and ev(ra_[2], {}) != 1):
+                    raise CannotEval(f"range of the page loop: {u(PL_.iter)}")
+                ok = all(same_json(xev(pg[k_], {iv: first_ + i_}), i_ + 1) for k_ in ("pages", "weight") for i_ in (0, 1)) and len(loop_stores(iv)) == 1
+                chk.ob("O19.6", f"{fname}: pages == weight == requests issued", ok, PL_, f"{ {k: u(v) for k, v in pg.items() if k in ('pages', 'weight')} }")
+            except CannotEval as e:
+                if len(PL_.iter.args) == 2 and source.is_const(PL_.iter.args[0], 1) and all(isinstance(pg[k_], ast.Name) for k_ in ("pages", "weight")):
+                    ok = all(pg[k_].id == iv for k_ in ("pages", "weight")) and len(loop_stores(iv)) == 1
+                    chk.ob("O19.6", f"{fname}: pages == weight == requests issued", ok, PL_, f"{ {k: u(v) for k, v in pg.items() if k in ('pages', 'weight')} }")
+                else:
+                    chk.unknown("O19.6", f"{fname}: the values recorded as `pages` / `weight` cannot be evaluated per iteration: {e}", PL_)
         hs = [n for n in ast.walk(PL_) if isinstance(n, ast.Assign) and isinstance(n.targets[0], ast.Subscript) and source.is_const(n.targets[0].slice, "hits")]
         ok = len(hs) == 1
+        if not ok:
+            chk.unknown("O19.6", f"{fname}: the one statement of the page loop that records the hit total (<result>['hits'] = ..) could not be located ({len(hs)} found)", PL_)
+            continue
         if ok:
             try:
                 # decided on values: the store is reached while no hit total is recorded yet, and not once one is
@@ -952,7 +1718,42 @@ def run(chk):
                 acc = u(tg)
                 if role == "timed_out":
                     v = st_.value
-                    sticky = (isinstance(st_, ast.Assign) and isinstance(v, ast.BoolOp) and isinstance(v.op, ast.Or) and any(u(x) == acc for x in v.values)) \
+
+                    def stays_on(e_, acc=acc):
+                        """decided on values: with the accumulated flag already true, the assigned value is true whatever this page reports (every other operand tried both ways)."""
+                        others = []
+
+                        def collect(x):
+                            if isinstance(x, ast.BoolOp):
+                                for y in x.values:
+                                    collect(y)
+                            elif isinstance(x, ast.UnaryOp) and isinstance(x.op, ast.Not):
+                                collect(x.operand)
+                            elif isinstance(x, ast.IfExp):
+                                collect(x.test), collect(x.body), collect(x.orelse)
+                            elif isinstance(x, ast.Call) and dotted(x.func) == "bool" and len(x.args) == 1 and not x.keywords:
+                                collect(x.args[0])
+                            elif not isinstance(x, ast.Constant) and u(x) != acc and u(x) not in others:
+                                others.append(u(x))
+
+                        def tv(x, env):
+                            if isinstance(x, ast.Constant):
+                                return bool(x.value)
+                            if isinstance(x, ast.BoolOp):
+                                vals = [tv(y, env) for y in x.values]
+                                return all(vals) if isinstance(x.op, ast.And) else any(vals)
+                            if isinstance(x, ast.UnaryOp) and isinstance(x.op, ast.Not):
+                                return not tv(x.operand, env)
+                            if isinstance(x, ast.IfExp):
+                                return tv(x.body, env) if tv(x.test, env) else tv(x.orelse, env)
+                            if isinstance(x, ast.Call) and dotted(x.func) == "bool" and len(x.args) == 1 and not x.keywords:
+                                return tv(x.args[0], env)
+                            return True if u(x) == acc else env[u(x)]
+
+                        collect(e_)
+                        return len(others) <= 6 and all(tv(e_, dict(zip(others, vals))) for vals in itertools.product((False, True), repeat=len(others)))
+
+                    sticky = (isinstance(st_, ast.Assign) and stays_on(v)) or (isinstance(st_, ast.Assign) and isinstance(v, ast.BoolOp) and isinstance(v.op, ast.Or) and any(u(x) == acc for x in v.values)) \
                         or (isinstance(st_, ast.AugAssign) and isinstance(st_.op, ast.BitOr)) \
                         or any(_p7.match(f_, "not E_a") is not None and _p7.match(f_, "not E_a")["a"] == acc for f_ in _p7.fact_nodes(st_, stop=lp)) \
                         or (isinstance(v, ast.Call) and dotted(v.func) in ("max", "any") and acc in u(v))
@@ -961,7 +1762,10 @@ def run(chk):
                 else:
                     summed = (isinstance(st_, ast.AugAssign) and isinstance(st_.op, ast.Add)) or (isinstance(st_, ast.Assign) and isinstance(st_.value, ast.BinOp) and isinstance(st_.value.op, ast.Add) and acc in u(st_.value))
                     chk.ob("O19.7", f"{fn.name}: took is summed over the pages", summed, st_, short(st_, 80), key=f"{_R}:Query.{fn.name}:sum:took")
-    chk.ob("O19.7", "page accumulators located (scroll, search_after, composite)", n7 >= 5, Q, f"{n7} in-loop store(s)")
+    if n7 >= 5:
+        chk.ob("O19.7", "page accumulators located (scroll, search_after, composite)", True, Q, f"{n7} in-loop store(s)")
+    else:
+        chk.unknown("O19.7", f"only {n7} of the page accumulators (timed_out / took of scroll, search_after, composite) could be located", Q)
 
     # ---- O19.8 what is read from a selective parse was requested from it ------------------------------------------------------------------------------------
     chk.rule("O19.8", "every key a caller reads from the result of parse(text, props, lists, objects) is among the paths it requested in that call (a path that was not requested is "
@@ -1013,9 +1817,16 @@ def run(chk):
                 n8 += 1
                 chk.ob("O19.8", f"{fn.name}: `{var}[{key!r}]` was requested from the parser", key in req, rd_, "" if key in req else f"requested: {sorted(req)}",
                        key=f"{_R}:{source.qualname(fn)}:requested:{key}")
-    chk.ob("O19.8", "selective-parse consumers located", n8 >= 20, rn.tree, f"{n8} keyed read(s)")
+    if n8 >= 20:
+        chk.ob("O19.8", "selective-parse consumers located", True, rn.tree, f"{n8} keyed read(s)")
+    else:
+        chk.unknown("O19.8", f"only {n8} keyed reads of selective-parse results could be located", rn.tree)
 
     # ---- O19.3 selective parser ------------------------------------------------------------------------------------------------------------------------------
+    # Decided on VALUES: the statements of parse() are interpreted (Machine, strict) on the ijson event streams of small representative documents - the event loop is fed the stream
+    # (json_events: the reference model of ijson's (prefix, event, value) triples), everything else (locals computed before the loop, membership containers, hoisted lengths,
+    # the dispatch, the exit test, the merge at the end) is whatever the source says. The dict parse() returns must equal what a FULL parse of the same document has for the
+    # requested paths (full_parse_view). No local name, container type, branch order or spelling of a test is looked at.
     chk.rule("O19.3", "the selective parser matches requested properties / lists / objects on the full ijson prefix; member keys of a collected object are the prefix with the object's own path "
              "stripped; early exit only when all requested properties, lists and objects were seen; an incomplete document ends the scan silently", 7,
              "a property with the same leaf name at another depth is returned; dotted member keys are mangled; extraction stops before a later requested value")
@@ -1027,170 +1838,217 @@ def run(chk):
     if not loops:
         raise AnchorMissing("event loop `for prefix, event, value in parser` in parse()")
     PL = loops[0]
-    pre, evn, val = [t.id for t in PL.target.elts]
-    from sa import minieval as _me
+    expand3 = Expander(rn, None, [n for n in ast.walk(pf) if isinstance(n, ast.FunctionDef) and n is not pf])
 
-    def sub_stores(root_=None):
-        """in-loop statements `<name>[key] = value` (optionally only those into the local `root_`)."""
-        return [n for n in ast.walk(PL) if isinstance(n, ast.Assign) and len(n.targets) == 1 and isinstance(n.targets[0], ast.Subscript) and isinstance(n.targets[0].value, ast.Name)
-                and (root_ is None or n.targets[0].value.id == root_)]
+    def has_opaque(v):
+        return isinstance(v, _Opaque) or (isinstance(v, dict) and any(has_opaque(x) for x in list(v.keys()) + list(v.values()))) or (isinstance(v, (list, tuple, set)) and any(has_opaque(x) for x in v))
 
-    # roles of parse()'s locals, by data flow: RES is the dict it returns; the dicts merged into it at the end are the list flags (values: `event == 'end_array'`) and the collected
-    # objects (values: the dict being filled, stored when the object's end_map arrives); INOBJ holds the path of the object being collected (bound from the prefix at its start_map)
-    rets = {n.value.id for n in walk_body(pf) if isinstance(n, ast.Return) and isinstance(n.value, ast.Name)}
-    RES = rets.pop() if len(rets) == 1 else None
-    merged = [n.args[0].id for n in walk_body(pf) if isinstance(n, ast.Call) and RES is not None and _pat.match(n.func, "V_r.update", binds={"r": RES}) is not None and len(n.args) == 1
-              and isinstance(n.args[0], ast.Name)]
-    lists_v = {m for m in merged if any(_pat.is_(n.value, f"{evn} == 'end_array'") for n in sub_stores(m))}
-    objs = {(m, n.value.id) for m in merged for n in sub_stores(m) if isinstance(n.value, ast.Name) and _pat.guarded(n, f"{evn} == 'end_map'", stop=PL) is not None}
-    LISTS = lists_v.pop() if len(lists_v) == 1 else None
-    OBJS, CUR = objs.pop() if len(objs) == 1 else (None, None)
-    inobj = [n.targets[0].id for n in ast.walk(PL) if isinstance(n, ast.Assign) and isinstance(n.targets[0], ast.Name) and isinstance(n.value, ast.Name) and n.value.id == pre
-             and _pat.guarded(n, f"{evn} == 'start_map'", stop=PL) is not None]
-    INOBJ = inobj[0] if len(set(inobj)) == 1 else None
+    def scan(events, props, lists=None, objects=None):
+        """parse() interpreted on an event stream: (the dict it returns, the trace of its event loop)."""
+        m = Machine(expand3, strict=True, loop_feed={id(PL): list(events)})
+        sig = m.run(pf.body, {pp[1]: list(props), pp[2]: None if lists is None else list(lists), pp[3]: None if objects is None else list(objects)})
+        if sig is None or sig[0] != "return" or not isinstance(sig[1], dict) or has_opaque(sig[1]):
+            raise CannotEval("parse() does not return a plain dict for the probe document")
+        if not m.trace and events:
+            raise CannotEval("the event loop of parse() is not reached")
+        return sig[1], m.trace
 
-    st = sub_stores(RES) if RES is not None else []
-    ok = len(st) == 1 and _pat.is_(st[0].targets[0], "V_r[V_p]", binds={"r": RES, "p": pre}) and _pat.is_(st[0].value, val) and _pat.guarded(st[0], f"{pre} in {pp[1]}", stop=PL) is not None
-    chk.ob("O19.3", "property matched on the full prefix and stored under it", ok, st[0] if st else PL, "" if RES is not None else "the dict returned by parse() could not be identified")
-    for kind, param, event in (("list", pp[2], "start_array"), ("object start", pp[3], "start_map"), ("object end", pp[3], "end_map")):
-        # some statement of the loop runs exactly under the facts `prefix in <param>` and `event == '<event>'` (any nesting, orientation, arm)
-        found = any(isinstance(n, ast.stmt) and _pat.guarded(n, f"{pre} in {param}", stop=PL) is not None and _pat.guarded(n, f"{evn} == '{event}'", stop=PL) is not None for n in ast.walk(PL))
-        chk.ob("O19.3", f"{kind} matched on full prefix and event", found, PL, "")
-    mk = [n for n in sub_stores(CUR) if _pat.is_(n.value, val)] if CUR is not None else []
-    ok = False
-    detail = "" if CUR is not None else "the dict collecting the members of the current object could not be identified"
-    if mk and INOBJ is not None:
-        k = mk[0].targets[0].slice
-        detail = u(k)
-        k = source.inline_node(k, {n_: d_ for n_, d_ in local_defs(pf).items() if n_ not in (pre, evn, val, INOBJ)})  # a key computed into a single-assignment local first
+    gave_up3 = []
+
+    def unknown3(e):
+        if not gave_up3:
+            chk.unknown("O19.3", f"parse() cannot be interpreted on a probe event stream: {e}", PL)
+        gave_up3.append(str(e))
+
+    def agrees(inst, runs, key=None, accept=None):
+        """obligation: for every (events, props, lists, objects) the interpreted parse() returns what a full parse of the same document has for the requested paths."""
+        bad = None
         try:
-            # decided on values: with the object at path o and an event at path o + '.' + member, the key is the member (dots inside the member kept)
-            ok = len(mk) == 1 and all(xev(k, {pre: o_ + "." + m_, INOBJ: o_, evn: "string", val: "v"}) == m_ for o_, m_ in
-                                      (("aggregations.x.after_key", "k"), ("a", "b.c.d"), ("a", "a.k"), ("a.b", "b"), ("o.k", "k.o.k"), ("ab", "x")))
-        except CannotEval:
-            ok = len(mk) == 1 and _pat.is_(k, "V_p[len(V_o) + 1:]", "V_p[1 + len(V_o):]", "V_p.removeprefix(V_o + '.')", "V_p[len(V_o) + len('.'):]", "V_p[len(V_o + '.'):]", binds={"p": pre, "o": INOBJ})
-    chk.ob("O19.3", "member key == prefix with the object's own path stripped", ok, mk[0] if mk else PL, detail + ("" if ok else " — keys containing '.' are mangled / collide"))
-    # member values of a collected object, decided on VALUES: inside object `a`, a scalar event stores its value whatever that value is (null, false, 0, 0.0 and "" included);
-    # keys and container events store nothing
-    init_env = {}
-    for n in pf.body:
-        if isinstance(n, ast.Assign) and len(n.targets) == 1 and isinstance(n.targets[0], ast.Name):
-            try:
-                init_env[n.targets[0].id] = _me.ev(n.value, {})
-            except _me.CannotEval:
-                pass
-    if INOBJ is not None:
-        EVENTS = [("null", None, True), ("boolean", False, True), ("boolean", True, True), ("integer", 0, True), ("integer", 7, True), ("double", 0.0, True), ("number", 0, True), ("string", "", True),
-                  ("string", "x", True), ("map_key", "k", False), ("start_array", None, False), ("end_array", None, False)]
-        for ev_name, v_, stored in EVENTS:
-            env_ = dict(init_env)
-            env_.update({pre: "a.k", evn: ev_name, val: v_, pp[1]: [], pp[2]: None, pp[3]: ["a"], INOBJ: "a"})
-
-            def atom_p(n, env, env_=env_):
-                try:
-                    return bool(_me.ev(n, dict(env_)))
-                except _me.CannotEval:
-                    return None
-
-            try:
-                out_ = decide(PL.body, atom_p, {})
-            except (Unsupported, UnknownAtom) as e:
-                chk.unknown("O19.3", f"the event dispatch of parse() is not a decision over (prefix, event, value): {e}", PL)
-                break
-            # a store of the event's value into a dict other than the returned one (that one is keyed by the full prefix: the property store)
-            got = [e_ for e_ in out_.effects if isinstance(e_, ast.Assign) and isinstance(e_.targets[0], ast.Subscript) and _pat.is_(e_.value, val) and root_name(e_.targets[0]) != RES
-                   and not _pat.is_(e_.targets[0].slice, pre)]
-            ok = (len(got) == 1) == stored
-            chk.ob("O19.3", f"object member: event {ev_name} value {v_!r} -> {'stored' if stored else 'nothing stored'}", ok, PL,
-                   ("stored" if got else "not stored") + ("" if ok else " — a falsy member value is dropped, so the extracted object differs from the fully parsed one (e.g. a composite after_key with false / 0 / '')"),
-                   key=f"{_R}:parse:member:{ev_name}|{v_!r}")
-        # the END of the collected object, on values: the object is stored under its own path and the parser LEAVES the object (otherwise every later scalar of the response is
-        # added to it while the scan continues for a property that is absent)
-        env_ = dict(init_env)
-        env_.update({pre: "a", evn: "end_map", val: None, pp[1]: [], pp[2]: None, pp[3]: ["a"], INOBJ: "a"})
-
-        def atom_e(n, env, env_=env_):
-            try:
-                return bool(_me.ev(n, dict(env_)))
-            except _me.CannotEval:
-                return None
-
-        try:
-            out_ = decide(PL.body, atom_e, {})
-            bnd_ = getattr(out_, "bindings", {})
-            left = isinstance(bnd_.get(INOBJ), ast.Constant) and bnd_[INOBJ].value is None
-            stores = [e_ for e_ in out_.effects if isinstance(e_, ast.Assign) and isinstance(e_.targets[0], ast.Subscript) and root_name(e_.targets[0]) != RES]
-            keyed = False
-            if len(stores) == 1:
-                try:
-                    keyed = _me.ev(stores[0].targets[0].slice, dict(env_)) == "a"
-                except _me.CannotEval:
-                    keyed = False
-            chk.ob("O19.3", "end of the collected object: stored under its own path", keyed, stores[0] if stores else PL, "", key=f"{_R}:parse:object-end:stored")
-            chk.ob("O19.3", "end of the collected object: the parser leaves the object (path variable reset)", left, PL,
-                   "" if left else f"`{INOBJ}` keeps the object's path after end_map: later scalar members of the response are added to the extracted object", key=f"{_R}:parse:object-end:left")
-        except (Unsupported, UnknownAtom) as e:
-            chk.unknown("O19.3", f"the end_map dispatch of parse() is not a decision over (prefix, event): {e}", PL)
-    else:
-        chk.unknown("O19.3", "the variable holding the path of the object being collected could not be identified in parse()", PL)
-    brk = [n for n in ast.walk(PL) if isinstance(n, ast.Break)]
-    ok = False
-    detail = ""
-    if len(brk) == 1 and None not in (RES, LISTS, OBJS):
-        # decided on values: over requested / seen combinations the loop is left iff every requested property, list and object has been seen
-        gs = guards(brk[0], stop=PL)
-        want = ["p1", "p2"]
-        grid = [(dict.fromkeys(want[:np_], 1), ls_, dict.fromkeys((ls_ or ["l1"])[:nl_], True), os_, dict.fromkeys((os_ or ["o1"])[:no_], {}))
-                for np_ in (0, 1, 2) for ls_ in (None, ["l1"], ["l1", "l2"]) for nl_ in range(0, len(ls_ or []) + 1) for os_ in (None, ["o1"], ["o1", "o2"]) for no_ in range(0, len(os_ or []) + 1)]
-        ok = bool(gs)
-        try:
-            for seen_p, ls_, seen_l, os_, seen_o in grid:
-                env_ = dict(init_env)
-                env_.update({pp[1]: want, pp[2]: ls_, pp[3]: os_, RES: seen_p, LISTS: seen_l, OBJS: seen_o})
-                leaves = all(bool(xev(t, dict(env_))) == pol for t, pol in gs)
-                complete = len(seen_p) == len(want) and (ls_ is None or len(seen_l) == len(ls_)) and (os_ is None or len(seen_o) == len(os_))
-                if leaves != complete:
-                    ok = False
-                    detail = f"with {len(seen_p)}/{len(want)} properties, {len(seen_l)}/{'-' if ls_ is None else len(ls_)} lists, {len(seen_o)}/{'-' if os_ is None else len(os_)} objects seen the scan {'stops' if leaves else 'continues'}"
+            for events, props, lists, objects in runs:
+                events = list(events)
+                got, _ = scan(events, props, lists, objects)
+                want, _ = full_parse_view(events, props, lists, objects)
+                if not same_json(got, want) and not (accept is not None and any(same_json(got, a_) for a_ in accept)):
+                    bad = f"requested props={props} lists={lists} objects={objects}: parse() returns {got!r}, a full parse of the same document has {want!r}"
                     break
-        except CannotEval as e:
-            ok = False
-            if len(gs) == 1 and gs[0][1] and isinstance(gs[0][0], ast.BoolOp) and isinstance(gs[0][0].op, ast.And):
-                conj = gs[0][0].values
-                ok = any(_pat.is_(c, f"len({RES}) == len({pp[1]})") for c in conj) and any(_pat.find(c, f"len({LISTS}) == len({pp[2]})") for c in conj) and any(_pat.find(c, f"len({OBJS}) == len({pp[3]})") for c in conj)
-            detail = "" if ok else f"exit condition not evaluable: {e}"
-    elif len(brk) == 1:
-        detail = "the dicts of seen properties / lists / objects could not be identified"
-    chk.ob("O19.3", "early exit only when all requested properties, lists and objects were seen", ok, brk[0] if brk else PL, detail)
+        except (CannotEval, TypeError) as e:
+            unknown3(e)
+            return
+        chk.ob("O19.3", inst, bad is None, PL, bad or f"{len(runs)} probe request(s) agree with the full parse", key=key)
+
+    def nest(path, leaf):
+        for k_ in reversed(path):
+            leaf = {k_: leaf}
+        return leaf
+
+    # the same leaf name at several depths, before and after the requested one; falsy scalar values
+    D_PROP = {"x": {"took": 9, "a": {"took": 8}}, "took": 3, "a": {"took": 5, "b": False, "n": None}, "b": "s", "z": 0, "e": "", "tail": [1]}
+    agrees("property matched on the full prefix and stored under it",
+           [(json_events(D_PROP), ["took"], None, None), (json_events(D_PROP), ["a.took", "b"], None, None), (json_events(D_PROP), ["a.b", "a.n", "z", "e", "zz.absent"], None, None),
+            (json_events(D_PROP), ["x.a.took", "x.took"], None, None)])
+    # lists: empty / non-empty / nested, the same leaf elsewhere, requested paths that are no arrays (string, object)
+    D_LIST = {"x": {"l": [1]}, "l": {"l": [], "m": "str"}, "a": {"l": [], "m": [1, 2], "n": [[]], "s": "str", "o": {}}, "t": 1}
+    agrees("list matched on full prefix and event",
+           [(json_events(D_LIST), ["t"], ["a.l", "a.m"], None), (json_events(D_LIST), ["zz.absent"], ["a.n"], None), (json_events(D_LIST), ["t"], ["a.s", "a.o", "l.l"], None),
+            (json_events(D_LIST), ["zz.absent"], ["x.l", "l.l", "l"], None)])
+    # flat objects: the same leaf before (x.a), after (b.a) and as a member (a.a) of the requested one
+    D_OBJ = {"x": {"a": {"k": 0}}, "a": {"k": 1, "n": None, "s": "v", "a": 2}, "a2": {"k": 2}, "b": {"a": {"k": 3}}, "z": 7}
+    agrees("object start matched on full prefix and event",
+           [(json_events(D_OBJ), ["z"], None, ["a"]), (json_events(D_OBJ), ["zz.absent"], None, ["b.a", "x.a"]), (json_events(D_OBJ), ["z"], None, ["a2", "z"])])
+    agrees("object end matched on full prefix and event",
+           [(json_events(D_OBJ), ["zz.absent"], None, ["a"]), (json_events(D_OBJ), ["zz.absent"], None, ["x.a", "a2"]), (json_events(D_OBJ), ["a.k", "z"], None, ["b.a"])])
+    # member keys: with the object at path o and a member m (dots inside m kept), the key is m
+    agrees("member key == prefix with the object's own path stripped",
+           [(json_events({**nest(o_.split("."), {m_: i_ for i_, m_ in enumerate(ms_)}), "t": 1}), ["zz.absent"], None, [o_]) for o_, ms_ in
+            (("aggregations.x.after_key", ["k", "b.c.d", "after_key.k", "aggregations"]), ("a", ["b.c.d", "a.k", "a"]), ("a.b", ["b", "a.b"]), ("o.k", ["k.o.k"]), ("ab", ["x"]))])
+    # member values of a collected object: inside object `a`, a scalar event stores its value whatever that value is (null, false, 0, 0.0 and "" included); keys and container events store nothing
+    EVENTS = [("null", None, True), ("boolean", False, True), ("boolean", True, True), ("integer", 0, True), ("integer", 7, True), ("double", 0.0, True), ("number", 0, True), ("string", "", True),
+              ("string", "x", True), ("map_key", "k", False), ("start_array", None, False), ("end_array", None, False)]
+    for ev_name, v_, stored in EVENTS:
+        if stored:
+            inner_ = [("a.k", ev_name, v_)]
+        elif ev_name == "map_key":
+            inner_ = []
+        else:
+            inner_ = [("a.k", "start_array", None), ("a.k", "end_array", None)]
+        stream = [("", "start_map", None), ("", "map_key", "a"), ("a", "start_map", None), ("a", "map_key", "k")] + inner_ + [("a", "end_map", None), ("", "map_key", "t"), ("t", "integer", 1), ("", "end_map", None)]
+        try:
+            got, _ = scan(stream, ["t"], None, ["a"])
+        except (CannotEval, TypeError) as e:
+            unknown3(e)
+            continue
+        obj = got.get("a")
+        if stored:
+            ok = same_json(obj, {"k": v_})
+        else:
+            ok = same_json(obj, {}) or (ev_name != "map_key" and same_json(obj, {"k": []}))
+        chk.ob("O19.3", f"object member: event {ev_name} value {v_!r} -> {'stored' if stored else 'nothing stored'}", ok and same_json(got.get("t"), 1), PL,
+               f"extracted object: {obj!r}" + ("" if ok else " — a falsy member value is dropped / a value is altered, so the extracted object differs from the fully parsed one (e.g. a composite after_key with false / 0 / '')"),
+               key=f"{_R}:parse:member:{ev_name}|{v_!r}")
+    # the END of the collected object: it is stored under its own path and the parser LEAVES the object (otherwise every later scalar of the response is added to it while the
+    # scan continues for a property that is absent)
+    try:
+        got, _ = scan(json_events({"a": {"k": 1}, "b": 5, "c": "x", "d": {"k": 2}}), ["zz.absent"], None, ["a"])
+        chk.ob("O19.3", "end of the collected object: stored under its own path", set(got) == {"a"} and isinstance(got["a"], dict), PL, f"parse() returns the keys {sorted(map(str, got))}",
+               key=f"{_R}:parse:object-end:stored")
+        left = same_json(got.get("a"), {"k": 1})
+        chk.ob("O19.3", "end of the collected object: the parser leaves the object (path variable reset)", left, PL,
+               "" if left else f"after the end of object `a` later members of the response still end up in it: {got.get('a')!r} instead of {{'k': 1}}", key=f"{_R}:parse:object-end:left")
+    except (CannotEval, TypeError) as e:
+        unknown3(e)
+    # early exit, on values: over requested combinations and member orders the scan stops exactly after the event with which the last requested property, list and object is known
+    brk = [n for n in ast.walk(PL) if isinstance(n, ast.Break)]
+    PARTS = {"p1": 1, "p2": 2, "l1": [], "l2": [1], "o1": {"k": 1}, "o2": {"k": 2}, "tail": 0}
+    ORDERS = (("p1", "l1", "o1", "p2", "l2", "o2", "tail"), ("o1", "o2", "l1", "l2", "p1", "p2", "tail"), ("l1", "p1", "p2", "o1", "o2", "l2", "tail"), ("p1", "p2", "l1", "l2", "o2", "o1", "tail"))
+    detail, ok, n_runs, late = "", True, 0, []
+    try:
+        for order in ORDERS:
+            events = list(json_events({k_: PARTS[k_] for k_ in order}))
+            for props in (["p1"], ["p1", "p2"], ["p1", "zz.absent"]):
+                for lists in (None, ["l1"], ["l1", "l2"]):
+                    for objects in (None, ["o1"], ["o1", "o2"]):
+                        got, trace = scan(events, props, lists, objects)
+                        want, at = full_parse_view(events, props, lists, objects)
+                        n_runs += 1
+                        wanted = list(props) + list(lists or []) + list(objects or [])
+                        complete_at = max(at[w_] for w_ in wanted) if all(w_ in at for w_ in wanted) else None
+                        stopped_at = len(trace) - 1 if trace and trace[-1]["broke"] else None
+                        where = lambda i_: "never" if i_ is None else f"after event #{i_} {events[i_][:2]}"  # noqa: E731
+                        if stopped_at is not None and (complete_at is None or stopped_at < complete_at) and ok:
+                            ok = False
+                            detail = f"requested props={props} lists={lists} objects={objects}, members in the order {list(order)}: the scan stops {where(stopped_at)}, everything requested is known {where(complete_at)}"
+                        elif complete_at is not None and (stopped_at is None or stopped_at > complete_at) and not late:
+                            # not a disagreement with the full parse (the result is compared below): the fast path merely reads further than it has to
+                            late.append(f"requested props={props} lists={lists} objects={objects}: everything requested is known {where(complete_at)}, the scan stops {where(stopped_at)}")
+                        if not same_json(got, want) and ok:
+                            ok = False
+                            detail = f"requested props={props} lists={lists} objects={objects}: parse() returns {got!r}, a full parse has {want!r}"
+        chk.ob("O19.3", "early exit only when all requested properties, lists and objects were seen", ok, brk[0] if brk else PL, detail or f"{n_runs} request / document combinations")
+        if late:
+            chk.adv("O19.3", f"parse() reads further than necessary (no disagreement, only slower): {late[0]}", brk[0] if brk else PL)
+    except (CannotEval, TypeError) as e:
+        unknown3(e)
     tr = source.enclosing(PL, ast.Try)
-    ok = tr is not None and len(tr.handlers) == 1 and last_attr(tr.handlers[0].type) == "IncompleteJSONError"
-    chk.ob("O19.3", "only an incomplete document is tolerated", ok, tr if tr is not None else PL, "")
-    ok = any(isinstance(n, ast.Call) and u(n.func) == f"{pp[0]}.seek" and n.args and source.is_const(n.args[0], 0) for n in walk_body(pf))
-    chk.ob("O19.3", "the response is scanned from its start", ok, pf, "")
+    if tr is None:
+        chk.unknown("O19.3", "no try statement around the event loop of parse(): where an incomplete document is handled could not be located", PL)
+    else:
+        caught = [last_attr(t_) for h_ in tr.handlers for t_ in (h_.type.elts if isinstance(h_.type, ast.Tuple) else [h_.type])]
+        chk.ob("O19.3", "only an incomplete document is tolerated", bool(caught) and all(c_ == "IncompleteJSONError" for c_ in caught), tr, f"handlers: {caught}")
+    # the text handed in is rewound: <text>.seek(0), the receiver being the parameter itself or a single-assignment alias of it
+    pdefs = local_defs(pf)
+
+    def is_text(e_):
+        return isinstance(e_, (ast.Name, ast.Attribute)) and u(source.inline_node(e_, pdefs)) == pp[0]
+
+    # uses that read from the stream's current position: the stream handed to a call (ijson.parse(text)) or read through read*() - getvalue() / getbuffer() do not depend on it
+    positional = [n for n in walk_body(pf) if isinstance(n, ast.Call) and (any(is_text(a_) for a_ in list(n.args) + [k.value for k in n.keywords])
+                                                                          or (isinstance(n.func, ast.Attribute) and n.func.attr.startswith("read") and is_text(n.func.value)))]
+    rewinds = [n for n in walk_body(pf) if isinstance(n, ast.Call) and isinstance(n.func, ast.Attribute) and n.func.attr == "seek" and n.args and source.is_const(n.args[0], 0)
+               and (len(n.args) == 1 or source.is_const(n.args[1], 0)) and is_text(n.func.value)]
+    ok = not positional or any(r_.lineno < min(x_.lineno for x_ in positional) and not guards(source.enclosing_stmt(r_)) for r_ in rewinds)
+    chk.ob("O19.3", "the response is scanned from its start", ok, positional[0] if positional else pf,
+           "" if positional else "the text is never read through its stream position")
     # composite agg: after_key path is the full path — the (single) object path handed to parse(), evaluated on a representative aggregation path
     CA = rn.cls("CompositeAggExtractor")
     cc = rn.methods(CA).get("__call__")
-    ok = False
-    site = CA
-    detail = ""
-    if cc is not None and len(params_of(cc)) >= 4:
-        pathp = params_of(cc)[3]
-        cdefs = local_defs(cc)
-        pcalls = [n for n in walk_body(cc) if isinstance(n, ast.Call) and dotted(n.func) == "parse"]
-        oarg = source.bind_args(pcalls[0], pf).get(pp[3]) if len(pcalls) == 1 else None
-        if oarg is not None:
-            site = pcalls[0]
-            oarg = source.inline_node(oarg, cdefs)
-            detail = u(oarg)
+    if cc is None:
+        raise AnchorMissing("CompositeAggExtractor.__call__")
+    cdefs = local_defs(cc)
+    pcalls = [n for n in walk_body(cc) if isinstance(n, ast.Call) and dotted(n.func) == "parse"]
+    oarg = source.bind_args(pcalls[0], pf).get(pp[3]) if len(pcalls) == 1 else None
+    if oarg is None:
+        chk.unknown("O19.3", "CompositeAggExtractor.__call__: the one parse() call with an `objects` argument could not be located", cc)
+    else:
+        oarg = source.inline_node(oarg, cdefs)
+        # the parameter holding the path of the aggregation: the one the requested object path is computed from
+        pathps = [p_ for p_ in params_of(cc) if p_ in loads_of(oarg)]
+        ok = False
+        if len(pathps) == 1:
             try:
-                ok = all(xev(oarg, {pathp: path_}) == ["aggregations." + ".".join(path_) + ".after_key"] for path_ in (["by_day"], ["outer", "inner"], ["a", "b", "c"]))
-            except CannotEval:
-                ok = isinstance(oarg, ast.List) and len(oarg.elts) == 1 and _pat.is_(oarg.elts[0], "'aggregations.' + '.'.join(V_p) + '.after_key'", binds={"p": pathp})
-    chk.ob("O19.3", "composite cursor requested by its full path", ok, site, detail)
+                ok = all(xev(oarg, {pathps[0]: path_}) == ["aggregations." + ".".join(path_) + ".after_key"] for path_ in (["by_day"], ["outer", "inner"], ["a", "b", "c"]))
+            except CannotEval as e:
+                if any(isinstance(x, ast.Call) and not isinstance(x.func, ast.Attribute) and dotted(x.func) not in ("str", "list", "tuple") for x in ast.walk(oarg)):
+                    chk.unknown("O19.3", f"the object path CompositeAggExtractor requests cannot be evaluated: {e}", pcalls[0])
+                    ok = None
+        # (no parameter / state of the extractor instead of the path handed in: the requested path does not follow the aggregation path of THIS call)
+        if ok is not None:
+            chk.ob("O19.3", "composite cursor requested by its full path", ok, pcalls[0], u(oarg))
 
 from sa.selftest import V  # noqa: E402
 
 _NEW = "            # sort values may contain brackets themselves so only the JSON decoder can tell where the array ends\n            last_sort, _ = self.decoder.raw_decode(response_str, index_of_last_sort + last_sort_str.start(1))\n            return last_sort"
+_PRED_IF = "if data[\"status\"] > 299 or (\"_shards\" in data and data[\"_shards\"][\"failed\"] > 0):"
+_SIMPLE_LOOP = ("            for item in parsed_response[\"items\"]:\n                data = next(iter(item.values()))\n                " + _PRED_IF + "\n"
+                "                    bulk_error_count += 1\n                    self.extract_error_details(error_details, data)\n                else:\n                    bulk_success_count += 1\n")
+_COUNT_HELPER = ("    def _count_items(self, items, error_details):\n        successes = 0\n        errors = 0\n        for item in items:\n            data = next(iter(item.values()))\n"
+                 "            " + _PRED_IF + "\n                errors += 1\n                self.extract_error_details(error_details, data)\n            else:\n                successes += 1\n"
+                 "        return successes, errors\n\n")
+_LAST_SORT_OLD = ("        index_of_last_sort = response_str.rfind('\"sort\"')\n        last_sort_str = re.search(self.sort_pattern, response_str[index_of_last_sort::])\n"
+                  "        if last_sort_str is not None:\n" + _NEW + "\n        else:\n            return None\n")
+_F28_FINALLY = ("                # also when a page request fails: the same body is handed out again for the next iteration\n                for item in [\"pit\", \"search_after\"]:\n"
+                "                    body.pop(item, None)\n")
+
+
+def _B2_SHAPE(name, kind, rule=None, swap=None, swap2=None):
+    """benign/C19-b2: membership tests on frozensets built once, the cheap event test first, lengths of the wish lists hoisted out of the loop."""
+    prelude = ("    wanted_props = frozenset(props)\n    wanted_lists = frozenset(lists) if lists is not None else frozenset()\n    wanted_objects = frozenset(objects) if objects is not None else frozenset()\n"
+               "    expected_props = len(props)\n    expected_lists = len(lists) if lists is not None else None\n    expected_objects = len(objects) if objects is not None else None\n\n")
+    body = ("            if prefix in wanted_props:\n                parsed[prefix] = value\n            elif event == \"start_array\" and prefix in wanted_lists:\n")
+    for sw in (swap, swap2):
+        if sw:
+            assert (prelude + body).count(sw[0]) == 1
+            prelude, body = prelude.replace(sw[0], sw[1]), body.replace(sw[0], sw[1])
+    return [V(name, kind, _R, "    text.seek(0)\n    parser = ijson.parse(text)\n", prelude + "    text.seek(0)\n    parser = ijson.parse(text)\n", rule),
+            V("", kind, _R, "            if prefix in props:\n                parsed[prefix] = value\n            elif lists is not None and prefix in lists and event == \"start_array\":\n", body),
+            V("", kind, _R, "            elif objects is not None and event == \"end_map\" and prefix in objects:\n", "            elif event == \"end_map\" and prefix in wanted_objects:\n"),
+            V("", kind, _R, "            elif objects is not None and event == \"start_map\" and prefix in objects:\n", "            elif event == \"start_map\" and prefix in wanted_objects:\n"),
+            V("", kind, _R, "            elif in_object and event in [\"null\", \"boolean\", \"integer\", \"double\", \"number\", \"string\"]:\n",
+              "            elif in_object and event in _JSON_SCALAR_EVENTS:\n"),
+            V("", kind, _R, "\ndef parse(text: BytesIO,", "\n_JSON_SCALAR_EVENTS = frozenset([\"null\", \"boolean\", \"integer\", \"double\", \"number\", \"string\"])\n\n\ndef parse(text: BytesIO,"),
+            V("", kind, _R, "                len(parsed) == len(props)\n                and (lists is None or len(parsed_lists) == len(lists))\n                and (objects is None or len(parsed_objects) == len(objects))\n",
+              "                len(parsed) == expected_props\n                and (expected_lists is None or len(parsed_lists) == expected_lists)\n                and (expected_objects is None or len(parsed_objects) == expected_objects)\n")]
+
+
 VARIANTS = [
     V("F17 guard dropped (harmless since F28: the finally removes the cursor on every exit) (search_after)", "keep", _R, "                if results.get(\"hits\") / size > page and page < total_pages:", "                if results.get(\"hits\") / size > page:", "O19.6"),
     V("F17 guard dropped (harmless since F28: the finally removes the cursor on every exit) (composite)", "keep", _R, "                if isinstance(after_key, dict) and page < total_pages:", "                if isinstance(after_key, dict):", "O19.6"),
@@ -1248,6 +2106,72 @@ VARIANTS = [
       "re.compile(r\"sort\\\"\\s*:\\s*(\\[)\")", "re.compile(r'sort\"[ \\t\\r\\n]*:[ \\t\\r\\n]*(\\[)')"),
     [V("F30 respelled: the decoder offset is the end of the match (lookahead instead of a group)", "keep", _R, "re.compile(r\"sort\\\"\\s*:\\s*(\\[)\")", "re.compile(r\"sort\\\"\\s*:\\s*(?=\\[)\")"),
      V("", "keep", _R, "last_sort_str.start(1)", "last_sort_str.end()")],
+    # ---- refactored shapes (benign round 2): each accepted shape comes with the property broken INSIDE that shape ----
+    # b1: the item predicate is a static method used by both paths
+    [V("b1 shape: item predicate extracted into a static method used by both paths", "keep", _R, "    def detailed_stats(self, params, response):\n",
+       "    @staticmethod\n    def _item_failed(data):\n        \"\"\"True iff the item has failed.\"\"\"\n        return data[\"status\"] > 299 or (\"_shards\" in data and data[\"_shards\"][\"failed\"] > 0)\n\n    def detailed_stats(self, params, response):\n"),
+     V("", "keep", _R, _PRED_IF, "if self._item_failed(data):", count=2)],
+    [V("b1 shape, predicate written with guard clauses and a local", "keep", _R, "    def detailed_stats(self, params, response):\n",
+       "    @staticmethod\n    def _item_failed(data):\n        if data[\"status\"] > 299:\n            return True\n        shards = data.get(\"_shards\")\n        if shards is None:\n            return False\n        return shards[\"failed\"] > 0\n\n    def detailed_stats(self, params, response):\n"),
+     V("", "keep", _R, _PRED_IF, "if self._item_failed(data):", count=2)],
+    [V("b1 shape broken: the extracted predicate tolerates one failed shard", "break", _R, "    def detailed_stats(self, params, response):\n",
+       "    @staticmethod\n    def _item_failed(data):\n        return data[\"status\"] > 299 or (\"_shards\" in data and data[\"_shards\"][\"failed\"] > 1)\n\n    def detailed_stats(self, params, response):\n", "O19.1"),
+     V("", "break", _R, _PRED_IF, "if self._item_failed(data):", count=2)],
+    [V("b1 shape broken: only the fast path uses the extracted predicate, which forgets the status", "break", _R, "    def detailed_stats(self, params, response):\n",
+       "    @staticmethod\n    def _item_failed(data):\n        return \"_shards\" in data and data[\"_shards\"][\"failed\"] > 0\n\n    def detailed_stats(self, params, response):\n", "O19.1"),
+     V("", "break", _R, "                " + _PRED_IF, "                if self._item_failed(data):")],
+    # the whole recount of the fast path moved into a helper that returns both counters
+    [V("recount of the fast path extracted into a helper returning (successes, errors)", "keep", _R, "    def extract_error_details(self, error_details, data):\n", _COUNT_HELPER + "    def extract_error_details(self, error_details, data):\n"),
+     V("", "keep", _R, _SIMPLE_LOOP, "            bulk_success_count, bulk_error_count = self._count_items(parsed_response[\"items\"], error_details)\n")],
+    [V("recount helper broken: every inspected item is also counted as succeeded", "break", _R, "    def extract_error_details(self, error_details, data):\n",
+       _COUNT_HELPER.replace("            else:\n                successes += 1\n", "            successes += 1\n") + "    def extract_error_details(self, error_details, data):\n", "O19.1"),
+     V("", "break", _R, _SIMPLE_LOOP, "            bulk_success_count, bulk_error_count = self._count_items(parsed_response[\"items\"], error_details)\n")],
+    # b2: hash lookups and hoisted invariants in parse()
+    _B2_SHAPE("b2 shape: parse() with frozenset lookups, event test first, hoisted lengths", "keep"),
+    _B2_SHAPE("b2 shape broken: the hoisted object count is never set, the scan stops before a requested object is complete", "break", rule="O19.3",
+              swap=("    expected_objects = len(objects) if objects is not None else None\n", "    expected_objects = None\n")),
+    _B2_SHAPE("b2 shape broken: the lookup set holds the leaf names of the requested properties", "break", rule="O19.3",
+              swap=("    wanted_props = frozenset(props)\n", "    wanted_props = frozenset(p.rsplit(\".\", 1)[-1] for p in props)\n"), swap2=("            if prefix in wanted_props:\n", "            if prefix.rsplit(\".\", 1)[-1] in wanted_props:\n")),
+    # b3: assignment expression, early return, compiled pattern's own search
+    V("b3 shape: walrus + early return + pattern.search in _get_last_sort", "keep", _R, _LAST_SORT_OLD,
+      "        last_sort_key = response_str.rfind('\"sort\"')\n        if (sort_match := self.sort_pattern.search(response_str[last_sort_key::])) is None:\n            return None\n"
+      "        last_sort, _ = self.decoder.raw_decode(response_str, last_sort_key + sort_match.start(1))\n        return last_sort\n"),
+    V("b3 shape broken: decoder offset is the start of the whole match", "break", _R, _LAST_SORT_OLD,
+      "        last_sort_key = response_str.rfind('\"sort\"')\n        if (sort_match := self.sort_pattern.search(response_str[last_sort_key::])) is None:\n            return None\n"
+      "        last_sort, _ = self.decoder.raw_decode(response_str, last_sort_key + sort_match.start())\n        return last_sort\n", "O19.2"),
+    # F28 clean-up extracted into a helper method
+    [V("F28 clean-up extracted into a helper method of Query", "keep", _R, "    async def _raw_search(self, es, doc_type, index, body, params, headers=None):\n",
+       "    @staticmethod\n    def _forget_page_state(body):\n        for item in [\"pit\", \"search_after\"]:\n            body.pop(item, None)\n\n    async def _raw_search(self, es, doc_type, index, body, params, headers=None):\n"),
+     V("", "keep", _R, _F28_FINALLY, "                self._forget_page_state(body)\n")],
+    [V("F28 clean-up helper broken: it forgets only the point in time", "break", _R, "    async def _raw_search(self, es, doc_type, index, body, params, headers=None):\n",
+       "    @staticmethod\n    def _forget_page_state(body):\n        for item in [\"pit\"]:\n            body.pop(item, None)\n\n    async def _raw_search(self, es, doc_type, index, body, params, headers=None):\n", "O19.6"),
+     V("", "break", _R, _F28_FINALLY, "                self._forget_page_state(body)\n")],
+    # extractor called with keyword arguments; UTF-8 spelled differently / left to the default
+    V("response handed to the extractor by keyword", "keep", _R, "self._search_after_extractor(\n                        response,\n                        bool(pit_op),\n",
+      "self._search_after_extractor(\n                        get_point_in_time=bool(pit_op),\n                        response=response,\n                        hits_total="),
+    V("the previous page's response handed to the extractor", "break", _R, "self._search_after_extractor(\n                        response,\n                        bool(pit_op),\n",
+      "self._search_after_extractor(\n                        previous_response if page > 1 else response,\n                        bool(pit_op),\n", "O19.6"),
+    V("codec spelled utf8", "keep", _R, "response.getvalue().decode(\"UTF-8\")", "response.getvalue().decode(\"utf8\")"),
+    V("codec latin-1", "break", _R, "response.getvalue().decode(\"UTF-8\")", "response.getvalue().decode(\"latin-1\")", "O19.2"),
+    # the body is deep-copied per invocation instead of being un-mutated: nothing has to be removed from the copy
+    [V("private deep copy of the body per invocation, clean-up in the finally dropped", "keep", _R, "        index = mandatory(params, \"index\", self)\n        body = mandatory(params, \"body\", self)\n        operation_type = params.get(\"operation-type\")\n",
+       "        index = mandatory(params, \"index\", self)\n        body = copy.deepcopy(mandatory(params, \"body\", self))\n        operation_type = params.get(\"operation-type\")\n"),
+     V("", "keep", _R, _F28_FINALLY, "                pass\n"),
+     V("", "keep", _R, "            finally:\n                body.pop(\"pit\", None)\n                if composite_agg_body:\n                    composite_agg_body.pop(\"after\", None)\n", "            finally:\n                pass\n")],
+    [V("shallow copy of the body: the nested composite aggregation is still the shared one", "break", _R, "        index = mandatory(params, \"index\", self)\n        body = mandatory(params, \"body\", self)\n        operation_type = params.get(\"operation-type\")\n",
+       "        index = mandatory(params, \"index\", self)\n        body = dict(mandatory(params, \"body\", self))\n        operation_type = params.get(\"operation-type\")\n", "O19.6"),
+     V("", "break", _R, "            finally:\n                body.pop(\"pit\", None)\n                if composite_agg_body:\n                    composite_agg_body.pop(\"after\", None)\n", "            finally:\n                pass\n")],
+    # the rewind of the response
+    V("rewind of the response removed", "break", _R, "    text.seek(0)\n    parser = ijson.parse(text)\n", "    parser = ijson.parse(text)\n", "O19.3"),
+    V("position-independent read instead of the rewind", "keep", _R, "    text.seek(0)\n    parser = ijson.parse(text)\n", "    parser = ijson.parse(BytesIO(text.getvalue()))\n"),
+    V("rewind through an alias of the parameter", "keep", _R, "    text.seek(0)\n    parser = ijson.parse(text)\n", "    stream = text\n    stream.seek(0)\n    parser = ijson.parse(stream)\n"),
+    # O19.7 on values: with the accumulated flag true the assigned value is true whatever the page reports
+    V("sticky flag as a guarded assignment of True", "keep", _R, "                        timed_out = timed_out or props.get(\"timed_out\", False)\n",
+      "                        if props.get(\"timed_out\", False):\n                            timed_out = True\n"),
+    V("sticky flag as a conditional expression", "keep", _R, "                        timed_out = timed_out or props.get(\"timed_out\", False)\n",
+      "                        timed_out = True if timed_out else bool(props.get(\"timed_out\", False))\n"),
+    V("flag accumulated with `and`: a later page turns it off", "break", _R, "                        timed_out = timed_out or props.get(\"timed_out\", False)\n",
+      "                        timed_out = timed_out and props.get(\"timed_out\", False)\n", "O19.7"),
     # preserving
     V("predicate extracted into a local", "keep", _R, "                if data[\"status\"] > 299 or (\"_shards\" in data and data[\"_shards\"][\"failed\"] > 0):\n                    bulk_error_count += 1\n                    self.extract_error_details(error_details, data)\n                else:\n                    bulk_success_count += 1\n        stats = {\n            \"took\": props.get(\"took\"),",
       "                failed = data[\"status\"] > 299 or (\"_shards\" in data and data[\"_shards\"][\"failed\"] > 0)\n                if failed:\n                    bulk_error_count += 1\n                    self.extract_error_details(error_details, data)\n                else:\n                    bulk_success_count += 1\n        stats = {\n            \"took\": props.get(\"took\"),"),
